@@ -5,22 +5,34 @@ mj_getState / mj_setState / mj_stateSize in src/engine/engine_support.c (clang I
 headers (sa.cheaders), array extents from the MJDATA_POINTERS X-macro (clang -E on a probe).
 
 Decided
-  R-STATE-MAP    for every single-bit mjtState element the C switch of mj_stateElemPtr (plus the `element == mjSTATE_X`
-                 special cases of mj_getState/mj_setState) and MJX's _STATE_MAP name the same mjData field; no element
-                 is known to one side only; every mapped name is a field of types.Data.
-  R-STATE-SIZE   for every element, MJX's _state_elem_size (partially evaluated per element: constant tests on the
-                 element's name, getattr(m, <name table>), `val *= k`, `k * m.n`) equals the C size expression
-                 k * m-><n> of mj_stateElemSize; the size field is a member of types.Model.
-  R-STATE-ORDER  state_size / get_state / set_state walk the bits as C does: ascending i over range(mjNSTATE),
-                 element = mjtState(1 << i), guarded by `element & spec`; the C loops have the same shape; every element
-                 whose C storage is not mjtNum (C special-cases it) is converted in both get_state and set_state.
+  The Python side is not matched against one layout of io.py: the state API and the JAX make_data path are *run* in a
+  partial evaluator (class Interp below: concrete control flow, symbolic model / data / arrays, helper functions,
+  generators, comprehensions, module-level tables, sum(), loops with accumulation, conditional expressions), and the
+  rules compare what the runs produce with the C tables.
+  R-STATE-MAP    for every single-bit mjtState element: the Data field get_state(spec = that bit) reads and the field
+                 set_state(spec = that bit) replaces are the field the C switch of mj_stateElemPtr (plus the
+                 `element == mjSTATE_X` special cases of mj_getState/mj_setState) names; no element is known to one side
+                 only (a raise for an element C accepts; a key of a consulted mjtState-keyed table that is not a
+                 single-bit element); every mapped name is a field of types.Data.
+  R-STATE-SIZE   for every element, state_size(m, that bit) and the width of the slice of the state vector that
+                 set_state(that bit) consumes equal the C size expression k * m-><n> of mj_stateElemSize (compared as
+                 linear forms over m.<n>); the size field is a member of types.Model.
+  R-STATE-ORDER  state_size / get_state / set_state select with `element & spec` and lay out in ascending bit order as
+                 the C loops do: for the full signature, the empty one, every signature with one element removed, every
+                 pair of neighbours and the two alternating halves, state_size is the sum of the selected C sizes,
+                 get_state concatenates exactly the selected fields in ascending bit order, set_state takes each
+                 selected field from state[adr : adr + size] with adr the running sum of the C sizes in ascending bit
+                 order; the C loops have the counted-loop shape; every element whose C storage is not mjtNum (C
+                 special-cases it) is converted in both get_state and set_state; both reject spec >= 1 << mjNSTATE.
   R-FIELDS       every field of types.Data / types.Model / types.Contact that io.py copies by name from the C object
                  (getattr copy loops) is a member of mjData / mjModel / mjContact; DataJAX fields copied under a
                  hasattr filter are C members or are assigned in the same function (derived).
-  R-MAKEDATA     make_data builds exactly the field set of types.Data / types.DataJAX (explicit keywords + the literal
-                 zero-field tables), so make_data and put_data produce the same pytree structure; each public zero field
-                 has the shape of the C array: leading dimension m.<nr> and trailing extent product nc of its
-                 MJDATA_POINTERS row.
+  R-MAKEDATA     the function make_data dispatches to for Impl.JAX, run with a symbolic model, constructs types.Data and
+                 types.DataJAX exactly once each with exactly the keyword set of their fields (so make_data and put_data
+                 produce the same pytree structure); every field of types.Data built as zeros(shape) has the shape of
+                 the C array: leading dimension m.<nr> and trailing extent product nc of its MJDATA_POINTERS row.
+  R-HOSTCOPY     host arrays splatted into types.Data/DataJAX/Model by the `_put_*_jax` functions are copies.
+  R-STATIC-HASH  the hash key of static numpy fields is a content digest on every path.
 Not decided: jit/vmap transparency and value round trips (need execution); Warp and C++ back ends.
 """
 from __future__ import annotations
@@ -256,21 +268,207 @@ def xmacro_rows(repo, macro):
 
 
 # --------------------------------------------------------------------------------------
-# Python side: tiny partial evaluator for _state_elem_size
+# Python side: partial evaluator
+#
+# The rules below do not look at how io.py is laid out.  They *run* the state API and the JAX make_data path of io.py in a
+# small evaluator for a Python subset: everything that depends only on concrete values (the state signature, element
+# names, literal tables at module or function level, helper functions, generators, comprehensions, sum(), loops with
+# accumulation, conditional expressions) is executed; everything that depends on the model / data / array arguments
+# stays a symbolic term (`T`), integer arithmetic over such terms a linear form (`Lin`).  Calls into other modules
+# (jp.*, np.*, types.*, constraint.* ...) are opaque terms and are logged as events.  A branch whose condition is not
+# decidable and whose body only raises is an input validation and is assumed not taken; any other undecidable branch
+# is executed on both sides and the environments are merged.  Anything outside the subset is an AnalysisError.
 
 
-class Sym:
-    """k * m.<field>"""
+class Ext:
+    """a name bound by an import, by dotted path from the local alias (`jp.zeros`, `types.Data`)"""
+    __slots__ = ("name",)
 
-    def __init__(self, k, field):
-        self.k, self.field = k, field
+    def __init__(self, name):
+        self.name = name
+
+    def __eq__(self, o):
+        return type(o) is type(self) and o.name == self.name
+
+    def __hash__(self):
+        return hash((type(self).__name__, self.name))
 
     def __repr__(self):
-        return f"{self.k}*m.{self.field}"
+        return self.name
+
+    def __deepcopy__(self, memo):
+        return self
 
 
-class _Model:
-    pass
+class Builtin(Ext):
+    __slots__ = ()
+
+
+class EnumType:
+    def __init__(self, name, values):
+        self.name, self.values = name, values
+
+    def __deepcopy__(self, memo):
+        return self
+
+    def __repr__(self):
+        return f"mujoco.{self.name}"
+
+
+class Enum:
+    """mujoco.mjtE.mjNAME: behaves like an IntEnum member (equal to its integer, hashes like it)"""
+    __slots__ = ("etype", "name", "value")
+
+    def __init__(self, etype, name, value):
+        self.etype, self.name, self.value = etype, name, value
+
+    def __eq__(self, o):
+        if isinstance(o, Enum):
+            return o.value == self.value
+        if isinstance(o, int):
+            return o == self.value
+        return NotImplemented
+
+    def __hash__(self):
+        return hash(self.value)
+
+    def __repr__(self):
+        return f"{self.etype}.{self.name}"
+
+    def __deepcopy__(self, memo):
+        return self
+
+
+class SliceV:
+    __slots__ = ("lo", "hi", "step")
+
+    def __init__(self, lo, hi, step):
+        self.lo, self.hi, self.step = lo, hi, step
+
+    def key(self):
+        return ("slice", _freeze(self.lo), _freeze(self.hi), _freeze(self.step))
+
+    def __eq__(self, o):
+        return isinstance(o, SliceV) and o.key() == self.key()
+
+    def __hash__(self):
+        return hash(self.key())
+
+    def __deepcopy__(self, memo):
+        return self
+
+    def __repr__(self):
+        return f"{'' if self.lo is None else show(self.lo)}:{'' if self.hi is None else show(self.hi)}" + \
+            ("" if self.step is None else ":" + show(self.step))
+
+
+class T:
+    """opaque symbolic term; args are deeply immutable (see _snap)"""
+    __slots__ = ("head", "args", "_key")
+
+    def __init__(self, head, *args):
+        self.head, self.args, self._key = head, args, None
+
+    def key(self):
+        if self._key is None:
+            self._key = ("T", self.head) + tuple(_freeze(a) for a in self.args)
+        return self._key
+
+    def __eq__(self, o):
+        return isinstance(o, T) and o.key() == self.key()
+
+    def __hash__(self):
+        return hash(self.key())
+
+    def __deepcopy__(self, memo):
+        return self
+
+    def __repr__(self):
+        return show(self)
+
+
+class Lin:
+    """const + sum(coeff * atom), atoms are T"""
+    __slots__ = ("terms", "const")
+
+    def __init__(self, terms, const=0):
+        self.terms = {a: c for a, c in terms.items() if c != 0}
+        self.const = const
+
+    @staticmethod
+    def of(v):
+        if isinstance(v, bool):
+            return Lin({}, int(v))
+        if isinstance(v, int):
+            return Lin({}, v)
+        if isinstance(v, Enum):
+            return Lin({}, v.value)
+        if isinstance(v, Lin):
+            return v
+        if isinstance(v, T):
+            return Lin({v: 1})
+        return None
+
+    def add(self, o, sign=1):
+        t = dict(self.terms)
+        for a, c in o.terms.items():
+            t[a] = t.get(a, 0) + sign * c
+        return Lin(t, self.const + sign * o.const)
+
+    def scale(self, k):
+        return Lin({a: c * k for a, c in self.terms.items()}, self.const * k)
+
+    def simp(self):
+        if not self.terms:
+            return self.const
+        if self.const == 0 and len(self.terms) == 1:
+            (a, c), = self.terms.items()
+            if c == 1:
+                return a
+        return self
+
+    def key(self):
+        return ("lin", self.const, frozenset((a.key(), c) for a, c in self.terms.items()))
+
+    def __eq__(self, o):
+        return isinstance(o, Lin) and o.key() == self.key()
+
+    def __hash__(self):
+        return hash(self.key())
+
+    def __deepcopy__(self, memo):
+        return self
+
+    def __repr__(self):
+        return show(self)
+
+
+class Iter:
+    """one-shot iterator over values that were produced eagerly (generator call, generator expression, iter())"""
+
+    def __init__(self, items):
+        self.items, self.pos = list(items), 0
+
+    def rest(self):
+        out = self.items[self.pos:]
+        self.pos = len(self.items)
+        return out
+
+
+class Func:
+    def __init__(self, node, closure=None):
+        self.node, self.closure = node, closure
+        self.name = getattr(node, "name", "<lambda>")
+        self.is_gen = not isinstance(node, ast.Lambda) and any(
+            isinstance(x, (ast.Yield, ast.YieldFrom)) for x in _own_scope(node))
+
+    def __deepcopy__(self, memo):
+        return self
+
+
+class BoundMethod:
+    def __init__(self, obj, name):
+        self.obj, self.name = obj, name
 
 
 class _Return(Exception):
@@ -279,187 +477,1291 @@ class _Return(Exception):
 
 
 class _Raise(Exception):
-    def __init__(self, name):
-        self.name = name
+    def __init__(self, name, line=None):
+        self.name, self.line = name, line
 
 
-class PE:
-    def __init__(self, rel, globs):
-        self.rel = rel
-        self.globs = globs
+class _Break(Exception):
+    pass
+
+
+class _Continue(Exception):
+    pass
+
+
+def _own_scope(fn):
+    """nodes of a function body that belong to its own scope (nested functions / lambdas excluded)"""
+    todo = list(fn.body) if isinstance(fn.body, list) else [fn.body]
+    while todo:
+        n = todo.pop()
+        yield n
+        for ch in ast.iter_child_nodes(n):
+            if not isinstance(ch, (ast.FunctionDef, ast.AsyncFunctionDef, ast.Lambda)):
+                todo.append(ch)
+
+
+def _freeze(v):
+    if isinstance(v, (T, Lin, SliceV)):
+        return v.key()
+    if isinstance(v, (list, tuple)):
+        return ("seq",) + tuple(_freeze(x) for x in v)
+    if isinstance(v, dict):
+        return ("dict",) + tuple((_freeze(k), _freeze(x)) for k, x in v.items())
+    if isinstance(v, (set, frozenset)):
+        return ("set", frozenset(_freeze(x) for x in v))
+    if isinstance(v, Iter):
+        return ("iter", id(v))
+    if isinstance(v, (Func, BoundMethod, EnumType)):
+        return ("obj", id(v))
+    if isinstance(v, Enum):
+        return ("enum", v.value)
+    if isinstance(v, bool):
+        return ("bool", v)
+    return v
+
+
+def _snap(v):
+    """immutable snapshot of a value for use inside a term"""
+    if isinstance(v, (list, tuple)):
+        return tuple(_snap(x) for x in v)
+    if isinstance(v, dict):
+        return T("dict", *((_snap(k), _snap(x)) for k, x in v.items()))
+    if isinstance(v, (set, frozenset)):
+        return frozenset(_snap(x) for x in v)
+    if isinstance(v, Iter):
+        return tuple(_snap(x) for x in v.rest())
+    return v
+
+
+def _is_sym(v):
+    return isinstance(v, (T, Lin))
+
+
+def truth(v):
+    """True / False / None (not decidable)"""
+    if _is_sym(v):
+        return None
+    if isinstance(v, Enum):
+        return v.value != 0
+    if isinstance(v, (Ext, Func, BoundMethod, EnumType, Iter, SliceV)):
+        return True
+    try:
+        return bool(v)
+    except Exception:
+        return None
+
+
+def show(v, depth=0):
+    """readable rendering of a value (messages and evidence samples only)"""
+    if depth > 6:
+        return "..."
+    d = depth + 1
+    if isinstance(v, T):
+        h, a = v.head, v.args
+        if h == "root":
+            return a[0]
+        if h == "attr":
+            return f"{show(a[0], d)}.{a[1]}"
+        if h == "sub":
+            return f"{show(a[0], d)}[{show(a[1], d)}]"
+        if h in ("call", "mcall"):
+            fn = show(a[0], d) if h == "call" else f"{show(a[0], d)}.{a[1]}"
+            pos, kws = (a[1], a[2]) if h == "call" else (a[2], a[3])
+            parts = [show(x, d) for x in pos] + [f"{k}={show(x, d)}" for k, x in kws]
+            return f"{fn}({', '.join(parts)})"
+        if h == "ifexp":
+            return f"({show(a[1], d)} if {show(a[0], d)} else {show(a[2], d)})"
+        if h == "cmp":
+            return f"({show(a[1], d)} {a[0]} {show(a[2], d)})"
+        if h == "binop":
+            return f"({show(a[1], d)} {a[0]} {show(a[2], d)})"
+        if h == "dict":
+            return "{" + ", ".join(f"{show(k, d)}: {show(x, d)}" for k, x in a) + "}"
+        return f"<{h}>" if not a else f"<{h} " + " ".join(show(x, d) for x in a[:3]) + ">"
+    if isinstance(v, Lin):
+        parts = [(f"{c}*" if c != 1 else "") + show(a, d) for a, c in sorted(v.terms.items(), key=lambda kv: show(kv[0]))]
+        if v.const or not parts:
+            parts.append(str(v.const))
+        return " + ".join(parts)
+    if isinstance(v, tuple):
+        return "(" + ", ".join(show(x, d) for x in v) + ("," if len(v) == 1 else "") + ")"
+    if isinstance(v, list):
+        return "[" + ", ".join(show(x, d) for x in v) + "]"
+    if isinstance(v, dict):
+        return "{" + ", ".join(f"{show(k, d)}: {show(x, d)}" for k, x in v.items()) + "}"
+    if isinstance(v, Func):
+        return f"<function {v.name}>"
+    return repr(v)
+
+
+def terms_in(v):
+    """every T inside a value (through containers, linear forms, slices and term arguments)"""
+    todo = [v]
+    while todo:
+        x = todo.pop()
+        if isinstance(x, T):
+            yield x
+            todo.extend(x.args)
+        elif isinstance(x, Lin):
+            todo.extend(x.terms)
+        elif isinstance(x, SliceV):
+            todo.extend((x.lo, x.hi, x.step))
+        elif isinstance(x, (list, tuple, set, frozenset)):
+            todo.extend(x)
+        elif isinstance(x, dict):
+            todo.extend(x.keys())
+            todo.extend(x.values())
+
+
+def root(name):
+    return T("root", name)
+
+
+_EXC = ("BaseException", "Exception", "ValueError", "TypeError", "KeyError", "IndexError", "NotImplementedError",
+        "RuntimeError", "AssertionError", "AttributeError", "ImportError", "ModuleNotFoundError", "StopIteration",
+        "ArithmeticError", "ZeroDivisionError", "OverflowError", "LookupError", "OSError", "DeprecationWarning",
+        "UserWarning", "RuntimeWarning", "Warning", "FutureWarning")
+_BUILTINS = ("int", "len", "range", "sum", "getattr", "hasattr", "isinstance", "issubclass", "tuple", "list", "dict", "set",
+             "frozenset", "enumerate", "zip", "sorted", "reversed", "min", "max", "any", "all", "abs", "next", "iter",
+             "bool", "str", "float", "complex", "bytes", "print", "repr", "map", "filter", "slice", "type", "id", "callable",
+             "round", "divmod", "object", "pow", "hash", "format", "vars", "super") + _EXC
+_BINOPS = {ast.Add: "+", ast.Sub: "-", ast.Mult: "*", ast.Div: "/", ast.FloorDiv: "//", ast.Mod: "%", ast.Pow: "**",
+           ast.LShift: "<<", ast.RShift: ">>", ast.BitAnd: "&", ast.BitOr: "|", ast.BitXor: "^", ast.MatMult: "@"}
+_CMPOPS = {ast.Eq: "==", ast.NotEq: "!=", ast.Lt: "<", ast.LtE: "<=", ast.Gt: ">", ast.GtE: ">=", ast.In: "in",
+           ast.NotIn: "not in", ast.Is: "is", ast.IsNot: "is not"}
+_UNDEF = T("undefined")
+
+
+class Interp:
+    MAX_STEPS = 400000
+    MAX_DEPTH = 40
+
+    def __init__(self, rel, tree, H):
+        self.rel, self.tree, self.H = rel, tree, H
+        self.mod = {}           # module-level name -> [(kind, node|dotted)]
+        self.gcache = {}
+        self.greads = set()     # module-level data names that were read
+        self.events = []        # (term, fork depth, line): calls into other modules, in execution order
+        self.assumed = []       # (line, condition): validation guards assumed not taken
+        self.fork = 0
+        self.depth = 0
+        self.steps = 0
+        self.ystack = []
+        self._evaluating = set()
+        self._scan(tree.body)
+
+    # -- module level ------------------------------------------------------------------
+    def _bind(self, name, kind, what):
+        self.mod.setdefault(name, []).append((kind, what))
+
+    @staticmethod
+    def _imported(st):
+        """(local name, dotted path of what it denotes) for an import statement"""
+        out = []
+        if isinstance(st, ast.Import):
+            for a in st.names:
+                out.append((a.asname, a.name) if a.asname else (a.name.split(".")[0], a.name.split(".")[0]))
+        else:
+            mod = "." * st.level + (st.module or "")
+            for a in st.names:
+                out.append((a.asname or a.name, (mod + "." if mod and not mod.endswith(".") else mod) + a.name))
+        return out
+
+    def _scan(self, stmts):
+        for st in stmts:
+            if isinstance(st, (ast.Import, ast.ImportFrom)):
+                for local, dotted in self._imported(st):
+                    if ("import", dotted) not in self.mod.get(local, ()):
+                        self._bind(local, "import", dotted)
+            elif isinstance(st, (ast.FunctionDef, ast.AsyncFunctionDef)):
+                self._bind(st.name, "func", st)
+            elif isinstance(st, ast.ClassDef):
+                self._bind(st.name, "class", st)
+            elif isinstance(st, ast.Assign):
+                for t in st.targets:
+                    if isinstance(t, ast.Name):
+                        self._bind(t.id, "assign", st.value)
+                    else:
+                        for x in ast.walk(t):
+                            if isinstance(x, ast.Name):
+                                self._bind(x.id, "opaque", st)
+            elif isinstance(st, ast.AnnAssign) and isinstance(st.target, ast.Name) and st.value is not None:
+                self._bind(st.target.id, "assign", st.value)
+            elif isinstance(st, ast.AugAssign) and isinstance(st.target, ast.Name):
+                self._bind(st.target.id, "opaque", st)
+            elif isinstance(st, ast.If):
+                self._scan(st.body)
+                self._scan(st.orelse)
+            elif isinstance(st, ast.Try):
+                self._scan(st.body)
+                for h in st.handlers:
+                    self._scan(h.body)
+                self._scan(st.orelse)
+                self._scan(st.finalbody)
+            elif isinstance(st, (ast.With,)):
+                self._scan(st.body)
+
+    def glob(self, name, n):
+        if name in self.gcache:
+            if name in self.mod and self.mod[name][0][0] == "assign":
+                self.greads.add(name)
+            return self.gcache[name]
+        b = self.mod.get(name)
+        if b is None:
+            if name in _BUILTINS:
+                return Builtin(name)
+            self.err(n, f"unknown name {name}")
+        if len(b) != 1:
+            kinds = {k for k, _ in b}
+            if kinds == {"import"} and len({w for _, w in b}) == 1:
+                b = b[:1]
+            else:
+                self.err(n, f"module-level name {name} is bound {len(b)} times")
+        kind, what = b[0]
+        if kind == "import":
+            v = Ext(what)
+        elif kind == "func":
+            v = Func(what)
+        elif kind == "class":
+            v = Ext(name)
+        elif kind == "assign":
+            if name in self._evaluating:
+                self.err(n, f"module-level name {name} depends on itself")
+            self._evaluating.add(name)
+            try:
+                v = self.ev(what, {})
+            except _Raise as r:
+                self.err(what, f"module-level initialiser of {name} raises {r.name}")
+            finally:
+                self._evaluating.discard(name)
+            self.greads.add(name)
+        else:
+            self.err(n, f"module-level name {name} is not a plain binding")
+        self.gcache[name] = v
+        return v
 
     def err(self, n, msg):
         raise AnalysisError(f"{self.rel}:{getattr(n, 'lineno', '?')}: partial evaluation: {msg}")
 
-    def run(self, fn, args):
-        env = dict(args)
+    # -- entry -------------------------------------------------------------------------
+    def call_function(self, name, args, kwargs=()):
+        """("return", value) | ("raise", exception name); self.events / self.assumed describe the run"""
+        self.events, self.assumed = [], []
+        self.fork = self.depth = 0
+        self.ystack = []
+        f = self.glob(name, None)
+        if not isinstance(f, Func):
+            raise AnalysisError(f"{self.rel}: {name} is not a module-level function")
         try:
-            self.block(fn.body, env)
-        except _Return as r:
-            return ("return", r.v)
+            return ("return", self.invoke(f, list(args), list(kwargs), f.node))
         except _Raise as r:
             return ("raise", r.name)
-        return ("return", None)
+        except RecursionError:
+            raise AnalysisError(f"{self.rel}: partial evaluation of {name}: recursion too deep")
+
+    # -- functions ---------------------------------------------------------------------
+    def invoke(self, f, args, kwargs, n):
+        node = f.node
+        a = node.args
+        env = dict(f.closure) if f.closure else {}
+        pos = [p.arg for p in a.posonlyargs + a.args]
+        kwonly = [p.arg for p in a.kwonlyargs]
+        bound = {}
+        if len(args) > len(pos):
+            if a.vararg is None:
+                raise _Raise("TypeError", getattr(n, "lineno", None))
+            bound[a.vararg.arg] = tuple(args[len(pos):])
+            args = args[:len(pos)]
+        elif a.vararg is not None:
+            bound[a.vararg.arg] = ()
+        for p, v in zip(pos, args):
+            bound[p] = v
+        extra = {}
+        for k, v in kwargs:
+            if k in bound or k in extra:
+                raise _Raise("TypeError", getattr(n, "lineno", None))
+            if k in pos[len(a.posonlyargs):] or k in kwonly:
+                bound[k] = v
+            elif a.kwarg is not None:
+                extra[k] = v
+            else:
+                raise _Raise("TypeError", getattr(n, "lineno", None))
+        if a.kwarg is not None:
+            bound[a.kwarg.arg] = extra
+        defaults = dict(zip(pos[len(pos) - len(a.defaults):], a.defaults))
+        defaults.update({k: d for k, d in zip(kwonly, a.kw_defaults) if d is not None})
+        for p in pos + kwonly:
+            if p not in bound:
+                if p not in defaults:
+                    raise _Raise("TypeError", getattr(n, "lineno", None))
+                bound[p] = self.ev(defaults[p], dict(f.closure) if f.closure else {})
+        env.update(bound)
+        self.depth += 1
+        if self.depth > self.MAX_DEPTH:
+            self.err(n, f"call depth exceeds {self.MAX_DEPTH} in {f.name}")
+        try:
+            if isinstance(node, ast.Lambda):
+                return self.ev(node.body, env)
+            if f.is_gen:
+                self.ystack.append(([], self.fork))
+                try:
+                    self.block(node.body, env)
+                except _Return:
+                    pass
+                finally:
+                    out, _ = self.ystack.pop()
+                return Iter(out)
+            try:
+                self.block(node.body, env)
+            except _Return as r:
+                return r.v
+            return None
+        finally:
+            self.depth -= 1
+
+    def call(self, f, args, kwargs, n):
+        if isinstance(f, Func):
+            return self.invoke(f, args, kwargs, n)
+        if isinstance(f, Builtin):
+            return self.builtin(f.name, args, kwargs, n)
+        if isinstance(f, EnumType):
+            if len(args) == 1 and not kwargs:
+                v = args[0].value if isinstance(args[0], Enum) else args[0]
+                if isinstance(v, int):
+                    for nm, val in f.values.items():
+                        if val == v:
+                            return Enum(f.name, nm, val)
+                    raise _Raise("ValueError", n.lineno)
+            self.err(n, f"unsupported construction of {f!r}")
+        if isinstance(f, BoundMethod):
+            return self.method(f, args, kwargs, n)
+        if isinstance(f, (Ext, T)):
+            kw = tuple((k, _snap(v)) for k, v in kwargs)
+            if isinstance(f, T) and f.head == "attr":
+                t = T("mcall", f.args[0], f.args[1], _snap(args), kw)
+            else:
+                t = T("call", f, _snap(args), kw)
+            self.events.append((t, self.fork, getattr(n, "lineno", None)))
+            return t
+        self.err(n, f"call of a non-callable value {show(f)}")
+
+    # -- statements --------------------------------------------------------------------
+    @staticmethod
+    def _raise_only(stmts):
+        seen = False
+        for s in stmts:
+            if isinstance(s, ast.Raise):
+                seen = True
+            elif isinstance(s, ast.Pass) or (isinstance(s, ast.Expr) and isinstance(s.value, ast.Constant)):
+                continue
+            else:
+                return False
+        return seen
 
     def block(self, stmts, env):
         for s in stmts:
-            if isinstance(s, ast.Expr) and isinstance(s.value, ast.Constant):
-                continue
-            if isinstance(s, ast.If):
-                t = self.ev(s.test, env)
-                if not isinstance(t, bool):
-                    self.err(s, "branch condition is not decidable")
-                self.block(s.body if t else s.orelse, env)
-            elif isinstance(s, ast.Assign) and len(s.targets) == 1 and isinstance(s.targets[0], ast.Name):
-                env[s.targets[0].id] = self.ev(s.value, env)
-            elif isinstance(s, ast.AugAssign) and isinstance(s.target, ast.Name):
-                cur = env.get(s.target.id)
-                env[s.target.id] = self.binop(s, s.op, cur, self.ev(s.value, env))
-            elif isinstance(s, ast.Return):
-                raise _Return(self.ev(s.value, env) if s.value is not None else None)
-            elif isinstance(s, ast.Raise):
-                e = s.exc.func if isinstance(s.exc, ast.Call) else s.exc
-                raise _Raise(e.id if isinstance(e, ast.Name) else "?")
+            self.steps += 1
+            if self.steps > self.MAX_STEPS:
+                self.err(s, "step budget exhausted")
+            self.stmt(s, env)
+
+    def stmt(self, s, env):
+        if isinstance(s, ast.Expr):
+            if not isinstance(s.value, ast.Constant):
+                self.ev(s.value, env)
+        elif isinstance(s, ast.Assign):
+            v = self.ev(s.value, env)
+            for t in s.targets:
+                self.assign(t, v, env)
+        elif isinstance(s, ast.AnnAssign):
+            if s.value is not None:
+                self.assign(s.target, self.ev(s.value, env), env)
+        elif isinstance(s, ast.AugAssign):
+            t = s.target
+            if isinstance(t, ast.Name):
+                cur = self.ev(ast.copy_location(ast.Name(id=t.id, ctx=ast.Load()), t), env)
+            elif isinstance(t, ast.Subscript):
+                cur = self.subscript(self.ev(t.value, env), self.ev(t.slice, env), t)
             else:
-                self.err(s, f"unsupported statement {type(s).__name__}")
+                self.err(s, "unsupported augmented assignment target")
+            new = self.binop(s, s.op, cur, self.ev(s.value, env))
+            if isinstance(cur, list) and isinstance(s.op, ast.Add) and isinstance(new, list):
+                cur.extend(new[len(cur):])       # `lst += x` mutates in place
+                new = cur
+            self.assign(t, new, env)
+        elif isinstance(s, ast.Return):
+            raise _Return(self.ev(s.value, env) if s.value is not None else None)
+        elif isinstance(s, ast.Raise):
+            e = s.exc.func if isinstance(s.exc, ast.Call) else s.exc
+            raise _Raise(e.id if isinstance(e, ast.Name) else (e.attr if isinstance(e, ast.Attribute) else "?"), s.lineno)
+        elif isinstance(s, ast.If):
+            self.do_if(s, env)
+        elif isinstance(s, ast.For):
+            broke = False
+            for v in self.iterate(self.ev(s.iter, env), s.iter):
+                self.assign(s.target, v, env)
+                try:
+                    self.block(s.body, env)
+                except _Break:
+                    broke = True
+                    break
+                except _Continue:
+                    continue
+            if not broke:
+                self.block(s.orelse, env)
+        elif isinstance(s, ast.While):
+            broke = False
+            while True:
+                t = truth(self.ev(s.test, env))
+                if t is None:
+                    self.err(s, "loop condition is not decidable")
+                if not t:
+                    break
+                self.steps += 1
+                if self.steps > self.MAX_STEPS:
+                    self.err(s, "step budget exhausted")
+                try:
+                    self.block(s.body, env)
+                except _Break:
+                    broke = True
+                    break
+                except _Continue:
+                    continue
+            if not broke:
+                self.block(s.orelse, env)
+        elif isinstance(s, ast.Break):
+            raise _Break()
+        elif isinstance(s, ast.Continue):
+            raise _Continue()
+        elif isinstance(s, ast.Pass):
+            pass
+        elif isinstance(s, ast.Assert):
+            t = truth(self.ev(s.test, env))
+            if t is False:
+                raise _Raise("AssertionError", s.lineno)
+            if t is None:
+                self.assumed.append((s.lineno, "assert"))
+        elif isinstance(s, ast.Delete):
+            for t in s.targets:
+                if isinstance(t, ast.Name) and t.id in env:
+                    del env[t.id]
+                elif isinstance(t, ast.Subscript):
+                    base, key = self.ev(t.value, env), self.ev(t.slice, env)
+                    if isinstance(base, (dict, list)) and not _is_sym(key):
+                        try:
+                            del base[key]
+                        except (KeyError, IndexError) as e:
+                            raise _Raise(type(e).__name__, s.lineno)
+                    else:
+                        self.err(s, "unsupported del")
+                else:
+                    self.err(s, "unsupported del")
+        elif isinstance(s, (ast.FunctionDef,)):
+            env[s.name] = Func(s, env)
+        elif isinstance(s, ast.Try):
+            try:
+                try:
+                    self.block(s.body, env)
+                except _Raise as r:
+                    for h in s.handlers:
+                        if self._handles(h.type, r.name):
+                            if h.name:
+                                env[h.name] = T("exc", r.name)
+                            self.block(h.body, env)
+                            break
+                    else:
+                        raise
+                else:
+                    self.block(s.orelse, env)
+            finally:
+                self.block(s.finalbody, env)
+        elif isinstance(s, ast.With):
+            for it in s.items:
+                v = self.ev(it.context_expr, env)
+                if it.optional_vars is not None:
+                    self.assign(it.optional_vars, T("enter", _snap(v)), env)
+            self.block(s.body, env)
+        elif isinstance(s, (ast.Import, ast.ImportFrom)):
+            for local, dotted in self._imported(s):
+                env[local] = Ext(dotted)
+        else:
+            self.err(s, f"unsupported statement {type(s).__name__}")
 
+    @staticmethod
+    def _handles(t, name):
+        if t is None:
+            return True
+        if isinstance(t, ast.Tuple):
+            return any(Interp._handles(x, name) for x in t.elts)
+        nm = t.id if isinstance(t, ast.Name) else (t.attr if isinstance(t, ast.Attribute) else None)
+        return nm in (name, "Exception", "BaseException")
+
+    def do_if(self, s, env):
+        c = self.ev(s.test, env)
+        t = truth(c)
+        if t is not None:
+            self.block(s.body if t else s.orelse, env)
+            return
+        # not decidable: validation guards are assumed not taken
+        if self._raise_only(s.body):
+            self.assumed.append((s.lineno, show(c)))
+            self.block(s.orelse, env)
+            return
+        if s.orelse and self._raise_only(s.orelse):
+            self.assumed.append((s.lineno, "not " + show(c)))
+            self.block(s.body, env)
+            return
+        import copy as _copy
+        live, raised = [], []
+        for branch in (s.body, s.orelse):
+            e = _copy.deepcopy(env)
+            self.fork += 1
+            try:
+                self.block(branch, e)
+                live.append(e)
+            except _Raise as r:
+                raised.append(r)
+            except (_Return, _Break, _Continue):
+                self.err(s, "return / break / continue under a condition that is not decidable")
+            finally:
+                self.fork -= 1
+        if not live:
+            raise raised[0]
+        if len(live) == 1:
+            self.assumed.append((s.lineno, show(c)))
+            merged = live[0]
+        else:
+            merged = {}
+            for k in list(live[0]) + [k for k in live[1] if k not in live[0]]:
+                v1, v2 = live[0].get(k, _UNDEF), live[1].get(k, _UNDEF)
+                merged[k] = v1 if _freeze(v1) == _freeze(v2) else T("phi", _snap(c), _snap(v1), _snap(v2))
+        env.clear()
+        env.update(merged)
+
+    def assign(self, t, v, env):
+        if isinstance(t, ast.Name):
+            env[t.id] = v
+        elif isinstance(t, (ast.Tuple, ast.List)):
+            stars = [i for i, e in enumerate(t.elts) if isinstance(e, ast.Starred)]
+            if stars:
+                if len(stars) > 1 or _is_sym(v):
+                    self.err(t, "unsupported starred assignment")
+                items = self.iterate(v, t)
+                i, after = stars[0], len(t.elts) - stars[0] - 1
+                if len(items) < len(t.elts) - 1:
+                    raise _Raise("ValueError", t.lineno)
+                for e, x in zip(t.elts[:i], items[:i]):
+                    self.assign(e, x, env)
+                self.assign(t.elts[i].value, items[i:len(items) - after], env)
+                for e, x in zip(t.elts[i + 1:], items[len(items) - after:]):
+                    self.assign(e, x, env)
+                return
+            for e, x in zip(t.elts, self.unpack(v, len(t.elts), t)):
+                self.assign(e, x, env)
+        elif isinstance(t, ast.Subscript):
+            base, key = self.ev(t.value, env), self.ev(t.slice, env)
+            if isinstance(base, dict) and not _is_sym(key):
+                try:
+                    base[key] = v
+                except TypeError:
+                    raise _Raise("TypeError", t.lineno)
+            elif isinstance(base, list) and isinstance(key, (int, Enum)) and not isinstance(key, bool):
+                try:
+                    base[key.value if isinstance(key, Enum) else key] = v
+                except IndexError:
+                    raise _Raise("IndexError", t.lineno)
+            else:
+                self.err(t, "store into a value that is not a concrete dict / list")
+        else:
+            self.err(t, f"unsupported assignment target {type(t).__name__}")
+
+    def unpack(self, v, n, node):
+        if isinstance(v, (tuple, list)):
+            items = list(v)
+        elif isinstance(v, Iter):
+            items = v.rest()
+        elif isinstance(v, dict):
+            items = list(v)
+        elif _is_sym(v):
+            return [T("sub", v, i) for i in range(n)]
+        else:
+            self.err(node, f"cannot unpack {show(v)}")
+        if len(items) != n:
+            raise _Raise("ValueError", node.lineno)
+        return items
+
+    def iterate(self, v, node):
+        if isinstance(v, (list, tuple)):
+            return list(v)
+        if isinstance(v, dict):
+            return list(v)
+        if isinstance(v, Iter):
+            return v.rest()
+        if isinstance(v, str):
+            return list(v)
+        if isinstance(v, (set, frozenset)):
+            return sorted(v, key=lambda x: repr(_freeze(x)))
+        if isinstance(v, EnumType):
+            return [Enum(v.name, k, x) for k, x in v.values.items()]
+        self.err(node, f"iteration over a value that is not concrete: {show(v)}")
+
+    # -- operators ---------------------------------------------------------------------
     def binop(self, n, op, a, b):
-        if isinstance(op, ast.Mult):
-            if isinstance(a, int) and isinstance(b, int):
+        sym = _BINOPS.get(type(op))
+        if sym is None:
+            self.err(n, "unsupported operator")
+        if _is_sym(a) or _is_sym(b):
+            la, lb = Lin.of(a), Lin.of(b)
+            if la is not None and lb is not None:
+                if sym == "+":
+                    return la.add(lb).simp()
+                if sym == "-":
+                    return la.add(lb, -1).simp()
+                if sym == "*":
+                    if not la.terms:
+                        return lb.scale(la.const).simp()
+                    if not lb.terms:
+                        return la.scale(lb.const).simp()
+            return T("binop", sym, _snap(a), _snap(b))
+        if isinstance(a, (Ext, Func, BoundMethod, EnumType)) or isinstance(b, (Ext, Func, BoundMethod, EnumType)):
+            return T("binop", sym, _snap(a), _snap(b))
+        if isinstance(a, Enum):
+            a = a.value
+        if isinstance(b, Enum):
+            b = b.value
+        if isinstance(a, Iter) or isinstance(b, Iter):
+            raise _Raise("TypeError", getattr(n, "lineno", None))
+        try:
+            if sym == "+":
+                return a + b
+            if sym == "-":
+                return a - b
+            if sym == "*":
                 return a * b
-            if isinstance(a, Sym) and isinstance(b, int):
-                return Sym(a.k * b, a.field)
-            if isinstance(a, int) and isinstance(b, Sym):
-                return Sym(a * b.k, b.field)
-        if isinstance(op, ast.Add) and isinstance(a, int) and isinstance(b, int):
-            return a + b
-        self.err(n, "unsupported arithmetic")
+            if sym == "/":
+                return a / b
+            if sym == "//":
+                return a // b
+            if sym == "%":
+                if isinstance(a, str):
+                    return T("fstr", getattr(n, "lineno", 0))
+                return a % b
+            if sym == "**":
+                return a ** b
+            if sym == "<<":
+                if isinstance(b, int) and b > 4096:
+                    self.err(n, "shift too large")
+                return a << b
+            if sym == ">>":
+                return a >> b
+            if sym == "&":
+                return a & b
+            if sym == "|":
+                return a | b
+            if sym == "^":
+                return a ^ b
+        except ZeroDivisionError:
+            raise _Raise("ZeroDivisionError", getattr(n, "lineno", None))
+        except TypeError:
+            raise _Raise("TypeError", getattr(n, "lineno", None))
+        self.err(n, f"unsupported operator {sym}")
 
+    def compare(self, n, op, a, b):
+        sym = _CMPOPS[type(op)]
+        unknown = T("cmp", sym, _snap(a), _snap(b))
+        if isinstance(a, Iter) or isinstance(b, Iter):
+            self.err(n, "comparison of an iterator")
+        opaque = (Ext, Func, BoundMethod, EnumType)
+        if sym in ("is", "is not"):
+            if _is_sym(a) or _is_sym(b):
+                return unknown
+            if isinstance(a, opaque) or isinstance(b, opaque):
+                if isinstance(a, Ext) and isinstance(b, Ext) and a == b:
+                    r = True
+                elif a is None or b is None or isinstance(a, bool) or isinstance(b, bool):
+                    r = False
+                else:
+                    return unknown
+            elif a is None or b is None or isinstance(a, bool) or isinstance(b, bool):
+                r = a is b
+            else:
+                r = _freeze(a) == _freeze(b)
+            return r if sym == "is" else not r
+        if sym in ("in", "not in"):
+            if _is_sym(b) or isinstance(b, opaque):
+                return unknown
+            if not isinstance(b, (list, tuple, dict, set, frozenset, str)):
+                raise _Raise("TypeError", n.lineno)
+            if _is_sym(a) or isinstance(a, opaque):
+                if len(b) == 0:
+                    return sym == "not in"
+                return unknown
+            try:
+                r = a in b
+            except TypeError:
+                raise _Raise("TypeError", n.lineno)
+            return r if sym == "in" else not r
+        if _is_sym(a) or _is_sym(b):
+            la, lb = Lin.of(a), Lin.of(b)
+            if la is None or lb is None:
+                return unknown
+            d = la.add(lb, -1)
+            if d.terms:
+                return unknown
+            a, b = d.const, 0
+        elif isinstance(a, opaque) or isinstance(b, opaque):
+            if sym in ("==", "!=") and isinstance(a, Ext) and isinstance(b, Ext) and a == b:
+                return sym == "=="
+            return unknown
+        if sym not in ("==", "!="):
+            a = a.value if isinstance(a, Enum) else a
+            b = b.value if isinstance(b, Enum) else b
+        elif _freeze(a) != _freeze(b) and (any(True for _ in terms_in(a)) or any(True for _ in terms_in(b))):
+            return unknown          # containers with symbolic members that are not identical
+        try:
+            if sym == "==":
+                return _freeze(a) == _freeze(b) if isinstance(a, (list, tuple, dict, set, frozenset)) else bool(a == b)
+            if sym == "!=":
+                return _freeze(a) != _freeze(b) if isinstance(a, (list, tuple, dict, set, frozenset)) else bool(a != b)
+            if sym == "<":
+                return a < b
+            if sym == "<=":
+                return a <= b
+            if sym == ">":
+                return a > b
+            return a >= b
+        except TypeError:
+            raise _Raise("TypeError", n.lineno)
+
+    def subscript(self, base, key, n):
+        if isinstance(base, (list, tuple, str)):
+            if isinstance(key, SliceV):
+                parts = [p.value if isinstance(p, Enum) else p for p in (key.lo, key.hi, key.step)]
+                if all(p is None or (isinstance(p, int) and not isinstance(p, bool)) for p in parts):
+                    return base[slice(*parts)]
+                return T("sub", _snap(base), key)
+            if isinstance(key, Enum):
+                key = key.value
+            if isinstance(key, int):
+                try:
+                    return base[key]
+                except IndexError:
+                    raise _Raise("IndexError", n.lineno)
+            if _is_sym(key):
+                return T("sub", _snap(base), key)
+            raise _Raise("TypeError", n.lineno)
+        if isinstance(base, dict):
+            if _is_sym(key):
+                return T("sub", _snap(base), key)
+            try:
+                if key in base:
+                    return base[key]
+            except TypeError:
+                raise _Raise("TypeError", n.lineno)
+            raise _Raise("KeyError", n.lineno)
+        if isinstance(base, (T, Lin, Ext)):
+            return T("sub", base, _snap(key))
+        if isinstance(base, (int, float, type(None), Iter, Enum, set, frozenset)):
+            raise _Raise("TypeError", n.lineno)
+        self.err(n, f"unsupported subscript of {show(base)}")
+
+    def attr(self, v, name, n):
+        if isinstance(v, Ext) and not isinstance(v, Builtin):
+            if v.name in ("mujoco", "mujoco._enums"):
+                vals = self.H.enumerators(name) if name.startswith("mjt") else None
+                if vals is not None:
+                    return EnumType(name, vals)
+                for tab in (self.H.macros, self.H.consts):
+                    x = tab.get(name)
+                    if isinstance(x, (int, float)) and not isinstance(x, bool):
+                        return x
+            return Ext(v.name + "." + name)
+        if isinstance(v, EnumType):
+            if name in v.values:
+                return Enum(v.name, name, v.values[name])
+            self.err(n, f"mujoco.{v.name} has no enumerator {name}")
+        if isinstance(v, Enum):
+            if name == "value":
+                return v.value
+            if name == "name":
+                return v.name
+            self.err(n, f"unsupported attribute {name} of an enumerator")
+        if _is_sym(v):
+            return T("attr", v, name)
+        if isinstance(v, (dict, list, tuple, str, set, frozenset)):
+            return BoundMethod(v, name)
+        if isinstance(v, Func) and name == "__name__":
+            return v.name
+        if isinstance(v, Builtin):
+            return Ext(v.name + "." + name)
+        self.err(n, f"unsupported attribute {name} of {show(v)}")
+
+    # -- expressions -------------------------------------------------------------------
     def ev(self, n, env):
         if isinstance(n, ast.Constant):
             return n.value
         if isinstance(n, ast.Name):
             if n.id in env:
                 return env[n.id]
-            if n.id in self.globs:
-                return self.globs[n.id]
-            self.err(n, f"unknown name {n.id}")
-        if isinstance(n, (ast.Tuple, ast.List, ast.Set)):
-            return tuple(self.ev(e, env) for e in n.elts)
-        if isinstance(n, ast.Dict):
-            return {self.ev(k, env): self.ev(v, env) for k, v in zip(n.keys, n.values)}
+            return self.glob(n.id, n)
         if isinstance(n, ast.Attribute):
-            c = c43.chain(n)
-            if c and c[0] == "mujoco" and len(c[1]) == 2 and c[1][0].startswith("mjt"):
-                return ("enum", c[1][0], c[1][1])
-            v = self.ev(n.value, env)
-            if isinstance(v, _Model):
-                return Sym(1, n.attr)
-            self.err(n, "unsupported attribute")
+            return self.attr(self.ev(n.value, env), n.attr, n)
         if isinstance(n, ast.Subscript):
-            v = self.ev(n.value, env)
-            k = self.ev(n.slice, env)
+            return self.subscript(self.ev(n.value, env), self.ev(n.slice, env), n)
+        if isinstance(n, ast.Slice):
+            return SliceV(*(self.ev(x, env) if x is not None else None for x in (n.lower, n.upper, n.step)))
+        if isinstance(n, (ast.Tuple, ast.List, ast.Set)):
+            out = []
+            for e in n.elts:
+                if isinstance(e, ast.Starred):
+                    out.extend(self.iterate(self.ev(e.value, env), e))
+                else:
+                    out.append(self.ev(e, env))
+            if isinstance(n, ast.Tuple):
+                return tuple(out)
+            if isinstance(n, ast.List):
+                return out
             try:
-                return v[k]
-            except Exception:
-                self.err(n, f"subscript {k!r} fails")
-        if isinstance(n, ast.Compare) and len(n.ops) == 1:
-            a, b = self.ev(n.left, env), self.ev(n.comparators[0], env)
-            op = n.ops[0]
-            if isinstance(a, (Sym, _Model)) or isinstance(b, (Sym, _Model)):
-                self.err(n, "comparison of a symbolic value")
-            if isinstance(op, ast.Eq):
-                return a == b
-            if isinstance(op, ast.NotEq):
-                return a != b
-            if isinstance(op, ast.In):
-                return a in b
-            if isinstance(op, ast.NotIn):
-                return a not in b
-            self.err(n, "unsupported comparison")
-        if isinstance(n, ast.BoolOp):
-            vals = [self.ev(v, env) for v in n.values]
-            if not all(isinstance(v, bool) for v in vals):
-                self.err(n, "non-boolean operand")
-            return all(vals) if isinstance(n.op, ast.And) else any(vals)
-        if isinstance(n, ast.UnaryOp) and isinstance(n.op, ast.Not):
-            v = self.ev(n.operand, env)
-            if not isinstance(v, bool):
-                self.err(n, "non-boolean operand")
-            return not v
+                return set(out)
+            except TypeError:
+                self.err(n, "unhashable set element")
+        if isinstance(n, ast.Dict):
+            out = {}
+            for k, v in zip(n.keys, n.values):
+                if k is None:
+                    d = self.ev(v, env)
+                    if not isinstance(d, dict):
+                        self.err(n, "cannot resolve ** in a dict display")
+                    out.update(d)
+                else:
+                    kk = self.ev(k, env)
+                    try:
+                        out[kk] = self.ev(v, env)
+                    except TypeError:
+                        self.err(n, "unhashable dict key")
+            return out
         if isinstance(n, ast.BinOp):
             return self.binop(n, n.op, self.ev(n.left, env), self.ev(n.right, env))
-        if isinstance(n, ast.Call) and isinstance(n.func, ast.Name) and n.func.id == "getattr" and len(n.args) == 2:
-            o, k = self.ev(n.args[0], env), self.ev(n.args[1], env)
-            if isinstance(o, _Model) and isinstance(k, str):
-                return Sym(1, k)
-            self.err(n, "unsupported getattr")
-        if isinstance(n, ast.Call) and isinstance(n.func, ast.Name) and n.func.id == "int" and len(n.args) == 1:
-            v = self.ev(n.args[0], env)
-            if isinstance(v, int):
+        if isinstance(n, ast.UnaryOp):
+            v = self.ev(n.operand, env)
+            if isinstance(n.op, ast.Not):
+                t = truth(v)
+                return (not t) if t is not None else T("not", _snap(v))
+            if isinstance(v, Enum):
+                v = v.value
+            if isinstance(n.op, ast.USub):
+                l = Lin.of(v)
+                if l is not None:
+                    return l.scale(-1).simp()
+                if isinstance(v, float):
+                    return -v
+            elif isinstance(n.op, ast.UAdd) and (Lin.of(v) is not None or isinstance(v, float)):
                 return v
+            elif isinstance(n.op, ast.Invert) and isinstance(v, int):
+                return ~v
+            return T("unop", type(n.op).__name__, _snap(v))
+        if isinstance(n, ast.BoolOp):
+            is_and = isinstance(n.op, ast.And)
+            vals, unknown = [], False
+            for x in n.values:
+                v = self.ev(x, env)
+                vals.append(v)
+                t = truth(v)
+                if t is None:
+                    unknown = True
+                elif t != is_and:
+                    return v            # decides the whole expression (its truth value, at least)
+            return T("boolop", "and" if is_and else "or", _snap(vals)) if unknown else vals[-1]
+        if isinstance(n, ast.Compare):
+            left = self.ev(n.left, env)
+            res, unknown = True, []
+            for op, c in zip(n.ops, n.comparators):
+                right = self.ev(c, env)
+                r = self.compare(n, op, left, right)
+                if r is False:
+                    return False
+                if r is not True:
+                    unknown.append(r)
+                left = right
+            if unknown:
+                return unknown[0] if len(unknown) == 1 else T("boolop", "and", tuple(unknown))
+            return res
+        if isinstance(n, ast.IfExp):
+            c = self.ev(n.test, env)
+            t = truth(c)
+            if t is not None:
+                return self.ev(n.body if t else n.orelse, env)
+            return T("ifexp", _snap(c), _snap(self.ev(n.body, env)), _snap(self.ev(n.orelse, env)))
+        if isinstance(n, ast.Call):
+            f = self.ev(n.func, env)
+            args = []
+            for a in n.args:
+                if isinstance(a, ast.Starred):
+                    args.extend(self.iterate(self.ev(a.value, env), a))
+                else:
+                    args.append(self.ev(a, env))
+            kwargs = []
+            for kw in n.keywords:
+                v = self.ev(kw.value, env)
+                if kw.arg is None:
+                    if not isinstance(v, dict) or not all(isinstance(k, str) for k in v):
+                        self.err(n, f"cannot resolve `**{ast.unparse(kw.value)[:40]}`")
+                    kwargs.extend(v.items())
+                else:
+                    kwargs.append((kw.arg, v))
+            return self.call(f, args, kwargs, n)
+        if isinstance(n, ast.JoinedStr):
+            return T("fstr", n.lineno)
+        if isinstance(n, ast.Lambda):
+            return Func(n, env)
+        if isinstance(n, (ast.ListComp, ast.SetComp, ast.DictComp, ast.GeneratorExp)):
+            return self.comprehension(n, env)
+        if isinstance(n, ast.NamedExpr):
+            v = self.ev(n.value, env)
+            env[n.target.id] = v
+            return v
+        if isinstance(n, ast.Yield):
+            if not self.ystack:
+                self.err(n, "yield outside a generator call")
+            out, fork = self.ystack[-1]
+            if fork != self.fork:
+                self.err(n, "yield under a condition that is not decidable")
+            out.append(self.ev(n.value, env) if n.value is not None else None)
+            return None
+        if isinstance(n, ast.YieldFrom):
+            if not self.ystack:
+                self.err(n, "yield outside a generator call")
+            out, fork = self.ystack[-1]
+            if fork != self.fork:
+                self.err(n, "yield under a condition that is not decidable")
+            out.extend(self.iterate(self.ev(n.value, env), n))
+            return None
+        if isinstance(n, ast.Starred):
+            self.err(n, "starred expression")
         self.err(n, f"unsupported expression {type(n).__name__}")
 
+    def comprehension(self, n, env):
+        out = []
 
-def module_literal(tree, name, rel):
-    for st in tree.body:
-        if isinstance(st, ast.Assign) and len(st.targets) == 1 and isinstance(st.targets[0], ast.Name) \
-                and st.targets[0].id == name:
-            return st
-    raise AnalysisError(f"{rel}: anchor vanished: module-level {name}")
+        def rec(i, e):
+            if i == len(n.generators):
+                if isinstance(n, ast.DictComp):
+                    out.append((self.ev(n.key, e), self.ev(n.value, e)))
+                else:
+                    out.append(self.ev(n.elt, e))
+                return
+            g = n.generators[i]
+            if g.is_async:
+                self.err(n, "async comprehension")
+            for v in self.iterate(self.ev(g.iter, e), g.iter):
+                self.assign(g.target, v, e)
+                keep = True
+                for c in g.ifs:
+                    t = truth(self.ev(c, e))
+                    if t is None:
+                        self.err(c, "comprehension filter is not decidable")
+                    if not t:
+                        keep = False
+                        break
+                if keep:
+                    rec(i + 1, e)
+        rec(0, dict(env))
+        try:
+            if isinstance(n, ast.ListComp):
+                return out
+            if isinstance(n, ast.SetComp):
+                return set(out)
+            if isinstance(n, ast.DictComp):
+                return dict(out)
+        except TypeError:
+            self.err(n, "unhashable element in a comprehension")
+        return Iter(out)
 
+    # -- builtins and methods of concrete containers ---------------------------------------
+    def builtin(self, name, args, kwargs, n):
+        kw = dict(kwargs)
+        line = getattr(n, "lineno", None)
 
-def py_loop_shape(fn):
-    """(ascending range(mjNSTATE), element = mjtState(1 << i), `element & spec` guard) for a state function."""
-    for loop in ast.walk(fn):
-        if not isinstance(loop, ast.For) or not isinstance(loop.target, ast.Name):
-            continue
-        it = loop.iter
-        if not (isinstance(it, ast.Call) and isinstance(it.func, ast.Name) and it.func.id == "range" and len(it.args) == 1):
-            continue
-        c = c43.chain(it.args[0]) if isinstance(it.args[0], ast.Attribute) else None
-        if not (c and c[0] == "mujoco" and c[1][:2] == ["mjtState", "mjNSTATE"] and c[1][2:] in ([], ["value"])):
-            continue
-        i = loop.target.id
-        elem = None
-        for st in loop.body:
-            if isinstance(st, ast.Assign) and len(st.targets) == 1 and isinstance(st.targets[0], ast.Name):
-                v = st.value
-                if isinstance(v, ast.Call) and isinstance(v.func, ast.Attribute) and c43.chain(v.func) == ("mujoco", ["mjtState"]) \
-                        and len(v.args) == 1 and isinstance(v.args[0], ast.BinOp) and isinstance(v.args[0].op, ast.LShift) \
-                        and isinstance(v.args[0].left, ast.Constant) and v.args[0].left.value == 1 \
-                        and isinstance(v.args[0].right, ast.Name) and v.args[0].right.id == i:
-                    elem = st.targets[0].id
-        if elem is None:
-            continue
-        guard = None
-        for st in loop.body:
-            if isinstance(st, ast.If) and isinstance(st.test, ast.BinOp) and isinstance(st.test.op, ast.BitAnd):
-                names = {x.id for x in (st.test.left, st.test.right) if isinstance(x, ast.Name)}
-                if elem in names and len(names) == 2:
-                    guard = st
-        if guard is None:
-            continue
-        return loop, elem, guard
-    return None
+        def opaque():
+            t = T("call", Builtin(name), _snap(args), tuple((k, _snap(v)) for k, v in kwargs))
+            return t
+        if name in _EXC:
+            return T("exc", name)
+        if name == "int":
+            if not args:
+                return 0
+            x = args[0]
+            if _is_sym(x):
+                return x            # integer-valued by assumption (sizes, counts)
+            if isinstance(x, Enum):
+                return x.value
+            if isinstance(x, (bool, int, float, str)):
+                try:
+                    return int(x, *args[1:]) if isinstance(x, str) else int(x)
+                except (ValueError, TypeError):
+                    raise _Raise("ValueError", line)
+            return opaque()
+        if name == "bool":
+            t = truth(args[0]) if args else False
+            return t if t is not None else opaque()
+        if name == "float":
+            if args and isinstance(args[0], (bool, int, float)):
+                return float(args[0])
+            return opaque()
+        if name in ("str", "repr", "format"):
+            if len(args) == 1 and isinstance(args[0], (str, int)) and not isinstance(args[0], bool):
+                return str(args[0]) if name != "repr" else repr(args[0])
+            return T("fstr", line or 0)
+        if name == "len":
+            x = args[0]
+            if isinstance(x, (list, tuple, dict, str, set, frozenset)):
+                return len(x)
+            if _is_sym(x) or isinstance(x, Ext):
+                return opaque()
+            raise _Raise("TypeError", line)
+        if name == "range":
+            vals = [a.value if isinstance(a, Enum) else a for a in args]
+            if vals and all(isinstance(a, int) and not isinstance(a, bool) for a in vals):
+                try:
+                    r = range(*vals)
+                except (TypeError, ValueError):
+                    raise _Raise("ValueError", line)
+                if len(r) > 100000:
+                    self.err(n, "range too large")
+                return list(r)
+            return opaque()
+        if name == "sum":
+            acc = args[1] if len(args) > 1 else kw.get("start", 0)
+            for x in self.iterate(args[0], n):
+                acc = self.binop(n, ast.Add(), acc, x)
+            return acc
+        if name == "getattr":
+            if len(args) < 2:
+                raise _Raise("TypeError", line)
+            o, k = args[0], args[1]
+            if isinstance(k, str):
+                if len(args) == 3 and (_is_sym(o) or isinstance(o, Ext)):
+                    return T("attr?", o, k, _snap(args[2]))
+                if len(args) == 3:
+                    try:
+                        return self.attr(o, k, n)
+                    except AnalysisError:
+                        return args[2]
+                return self.attr(o, k, n)
+            if _is_sym(k):
+                return T("getattr", _snap(o), k)
+            raise _Raise("TypeError", line)
+        if name in ("hasattr", "isinstance", "issubclass", "callable", "type", "id", "hash", "vars", "super", "object",
+                    "complex", "bytes", "round", "divmod", "pow"):
+            if name == "isinstance" and len(args) == 2 and isinstance(args[1], Builtin):
+                py = {"int": int, "str": str, "float": float, "bool": bool, "tuple": tuple, "list": list, "dict": dict,
+                      "set": set}.get(args[1].name)
+                x = args[0]
+                if py is not None and not _is_sym(x) and not isinstance(x, (Ext, Func, BoundMethod, Iter, EnumType)):
+                    if isinstance(x, Enum):
+                        return py is int
+                    return isinstance(x, py)
+            return opaque()
+        if name in ("tuple", "list", "set", "frozenset"):
+            items = self.iterate(args[0], n) if args else []
+            try:
+                return {"tuple": tuple, "list": list, "set": set, "frozenset": frozenset}[name](items)
+            except TypeError:
+                self.err(n, "unhashable set element")
+        if name == "dict":
+            out = {}
+            if args:
+                src = args[0]
+                if isinstance(src, dict):
+                    out.update(src)
+                else:
+                    for pair in self.iterate(src, n):
+                        k, v = self.unpack(pair, 2, n)
+                        out[k] = v
+            out.update(kw)
+            return out
+        if name == "enumerate":
+            start = args[1] if len(args) > 1 else kw.get("start", 0)
+            return Iter([(start + i, x) for i, x in enumerate(self.iterate(args[0], n))])
+        if name == "zip":
+            return Iter([tuple(t) for t in zip(*(self.iterate(a, n) for a in args))])
+        if name == "reversed":
+            return Iter(list(reversed(self.iterate(args[0], n))))
+        if name == "sorted":
+            items = self.iterate(args[0], n)
+            keyf = kw.get("key")
+            keys = [self.call(keyf, [x], [], n) for x in items] if keyf is not None else list(items)
+            keys = [k.value if isinstance(k, Enum) else k for k in keys]
+            if any(_is_sym(k) or isinstance(k, (Ext, Func)) for k in keys):
+                self.err(n, "sorting by a key that is not concrete")
+            try:
+                order = sorted(range(len(items)), key=lambda i: keys[i], reverse=bool(truth(kw.get("reverse", False))))
+            except TypeError:
+                raise _Raise("TypeError", line)
+            return [items[i] for i in order]
+        if name in ("min", "max"):
+            items = self.iterate(args[0], n) if len(args) == 1 else list(args)
+            items = [x.value if isinstance(x, Enum) else x for x in items]
+            if items and all(isinstance(x, (int, float, str)) for x in items) and "key" not in kw:
+                try:
+                    return min(items) if name == "min" else max(items)
+                except TypeError:
+                    raise _Raise("TypeError", line)
+            if not items:
+                if "default" in kw:
+                    return kw["default"]
+                raise _Raise("ValueError", line)
+            return opaque()
+        if name in ("any", "all"):
+            unknown = False
+            for x in self.iterate(args[0], n):
+                t = truth(x)
+                if t is None:
+                    unknown = True
+                elif t == (name == "any"):
+                    return name == "any"
+            return opaque() if unknown else name == "all"
+        if name == "abs":
+            x = args[0]
+            if isinstance(x, (int, float)):
+                return abs(x)
+            return opaque()
+        if name == "iter":
+            x = args[0]
+            return x if isinstance(x, Iter) else Iter(self.iterate(x, n))
+        if name == "next":
+            x = args[0]
+            if not isinstance(x, Iter):
+                if _is_sym(x):
+                    return opaque()
+                raise _Raise("TypeError", line)
+            if x.pos < len(x.items):
+                x.pos += 1
+                return x.items[x.pos - 1]
+            if len(args) > 1:
+                return args[1]
+            raise _Raise("StopIteration", line)
+        if name == "map":
+            return Iter([self.call(args[0], list(t), [], n) for t in zip(*(self.iterate(a, n) for a in args[1:]))])
+        if name == "filter":
+            out = []
+            for x in self.iterate(args[1], n):
+                t = truth(x if args[0] is None else self.call(args[0], [x], [], n))
+                if t is None:
+                    self.err(n, "filter predicate is not decidable")
+                if t:
+                    out.append(x)
+            return Iter(out)
+        if name == "slice":
+            a = list(args) + [None] * 3
+            return SliceV(None, a[0], None) if len(args) == 1 else SliceV(a[0], a[1], a[2])
+        if name == "print":
+            return None
+        return opaque()
 
-
-def py_specials(guard, elem):
-    """Elements compared with `elem == mujoco.mjtState.X` guarding an `.astype(...)` conversion."""
-    out = set()
-    for n in ast.walk(guard):
-        if isinstance(n, ast.If) and isinstance(n.test, ast.Compare) and len(n.test.ops) == 1 \
-                and isinstance(n.test.ops[0], ast.Eq):
-            sides = [n.test.left, n.test.comparators[0]]
-            if any(isinstance(s, ast.Name) and (elem is None or s.id == elem) for s in sides):
-                for s in sides:
-                    c = c43.chain(s) if isinstance(s, ast.Attribute) else None
-                    if c and c[0] == "mujoco" and c[1][:1] == ["mjtState"] and len(c[1]) == 2:
-                        conv = any(isinstance(x, ast.Call) and isinstance(x.func, ast.Attribute) and x.func.attr == "astype"
-                                   for b in n.body for x in ast.walk(b))
-                        if conv:
-                            out.add(c[1][1])
-    return out
+    def method(self, bm, args, kwargs, n):
+        o, name = bm.obj, bm.name
+        kw = dict(kwargs)
+        line = getattr(n, "lineno", None)
+        try:
+            if isinstance(o, dict):
+                if name == "items":
+                    return [(k, v) for k, v in o.items()]
+                if name == "keys":
+                    return list(o.keys())
+                if name == "values":
+                    return list(o.values())
+                if name == "copy":
+                    return dict(o)
+                if name in ("get", "pop", "setdefault") and args:
+                    k = args[0]
+                    if _is_sym(k):
+                        self.err(n, f"dict.{name} with a key that is not concrete")
+                    if name == "get":
+                        return o.get(k, args[1] if len(args) > 1 else kw.get("default"))
+                    if name == "setdefault":
+                        return o.setdefault(k, args[1] if len(args) > 1 else None)
+                    if k in o:
+                        return o.pop(k)
+                    if len(args) > 1:
+                        return args[1]
+                    raise _Raise("KeyError", line)
+                if name == "update":
+                    for src in args:
+                        if isinstance(src, dict):
+                            o.update(src)
+                        else:
+                            for pair in self.iterate(src, n):
+                                k, v = self.unpack(pair, 2, n)
+                                o[k] = v
+                    o.update(kw)
+                    return None
+                if name == "clear":
+                    o.clear()
+                    return None
+            elif isinstance(o, list):
+                if name == "append" and len(args) == 1:
+                    o.append(args[0])
+                    return None
+                if name == "extend" and len(args) == 1:
+                    o.extend(self.iterate(args[0], n))
+                    return None
+                if name == "insert" and len(args) == 2 and isinstance(args[0], int):
+                    o.insert(args[0], args[1])
+                    return None
+                if name == "pop":
+                    if not o:
+                        raise _Raise("IndexError", line)
+                    return o.pop(*[a for a in args if isinstance(a, int)])
+                if name == "copy":
+                    return list(o)
+                if name == "reverse":
+                    o.reverse()
+                    return None
+                if name == "clear":
+                    del o[:]
+                    return None
+                if name == "sort":
+                    o[:] = self.builtin("sorted", [list(o)], list(kwargs), n)
+                    return None
+            if isinstance(o, (list, tuple)) and name in ("index", "count") and len(args) == 1 and not _is_sym(args[0]):
+                fz = [_freeze(x) for x in o]
+                if name == "count":
+                    return fz.count(_freeze(args[0]))
+                if _freeze(args[0]) in fz:
+                    return fz.index(_freeze(args[0]))
+                raise _Raise("ValueError", line)
+            if isinstance(o, str):
+                if name == "format":
+                    return T("fstr", line or 0)
+                if all(isinstance(a, (str, int, tuple)) for a in args) and not kw and name in (
+                        "startswith", "endswith", "split", "rsplit", "lower", "upper", "strip", "lstrip", "rstrip", "replace",
+                        "removeprefix", "removesuffix", "isdigit", "find", "partition", "rpartition", "title", "capitalize"):
+                    r = getattr(o, name)(*args)
+                    return r
+                if name == "join" and len(args) == 1:
+                    items = self.iterate(args[0], n)
+                    if all(isinstance(x, str) for x in items):
+                        return o.join(items)
+                    return T("fstr", line or 0)
+            if isinstance(o, (set, frozenset)):
+                if name in ("add", "discard", "remove") and isinstance(o, set) and len(args) == 1:
+                    if name == "remove" and args[0] not in o:
+                        raise _Raise("KeyError", line)
+                    getattr(o, name)(args[0])
+                    return None
+                if name == "update" and isinstance(o, set):
+                    for a in args:
+                        o.update(self.iterate(a, n))
+                    return None
+                if name in ("union", "intersection", "difference", "symmetric_difference", "issubset", "issuperset",
+                            "isdisjoint"):
+                    return getattr(o, name)(*[set(self.iterate(a, n)) for a in args])
+                if name == "copy":
+                    return type(o)(o)
+        except TypeError:
+            raise _Raise("TypeError", line)
+        self.err(n, f"unsupported method {type(o).__name__}.{name}")
 
 
 # --------------------------------------------------------------------------------------
@@ -596,6 +1898,83 @@ def unit_width_argument(repo, H, sources, classes):
     return (not bad), {"non_unit_assignments": sites, "unguarded": bad}
 
 
+def _as_size(v, mroot):
+    """(k, field) for the values k, m.<field>, k*m.<field>; None for anything else"""
+    if isinstance(v, bool):
+        return None
+    l = Lin.of(v)
+    if l is None:
+        return None
+    if not l.terms:
+        return (l.const, None)
+    if l.const == 0 and len(l.terms) == 1:
+        (a, c), = l.terms.items()
+        if a.head == "attr" and a.args[0] == mroot:
+            return (c, a.args[1])
+    return None
+
+
+def _size_text(k, f, arrow="."):
+    return f"{k}*m{arrow}{f}" if f else f"{k}"
+
+
+def _converted(v):
+    """the value passes a dtype conversion (`.astype(..)` or a call with dtype=...)"""
+    for t in terms_in(v):
+        if t.head == "mcall" and (t.args[1] == "astype" or any(k == "dtype" for k, _ in t.args[3])):
+            return True
+        if t.head == "call" and any(k == "dtype" for k, _ in t.args[2]):
+            return True
+    return False
+
+
+def _state_items(v, droot, where):
+    """[(data field, converted)]: the pieces of the vector a get_state call returns, in concatenation order"""
+    if not any(t.head == "attr" and t.args[0] == droot for t in terms_in(v)):
+        return []
+    seqs = [a for a in v.args[1] if isinstance(a, tuple)] if isinstance(v, T) and v.head == "call" else []
+    if len(seqs) != 1:
+        raise AnalysisError(f"{where}: the result is not one call over the sequence of selected pieces: {show(v)[:200]}")
+    out = []
+    for item in seqs[0]:
+        fields = {t.args[1] for t in terms_in(item) if t.head == "attr" and t.args[0] == droot}
+        if len(fields) != 1:
+            raise AnalysisError(f"{where}: a piece of the state vector reads {sorted(fields)}: {show(item)[:200]}")
+        out.append((fields.pop(), _converted(item)))
+    return out
+
+
+def _state_updates(v, droot, sroot, where):
+    """{data field: (lo, hi, converted)}: the slices state[lo:hi] a set_state call writes into the replaced Data"""
+    if v == droot:
+        return {}
+    if isinstance(v, T) and v.head == "mcall" and v.args[0] == droot and v.args[1] == "replace" and not v.args[2]:
+        kws = v.args[3]
+    elif isinstance(v, T) and v.head == "call" and isinstance(v.args[0], Ext) and v.args[0].name.endswith("replace") \
+            and v.args[1] == (droot,):
+        kws = v.args[2]
+    else:
+        raise AnalysisError(f"{where}: the result is not `d.replace(**updates)`: {show(v)[:200]}")
+    out = {}
+    for name, val in kws:
+        if name in out:
+            raise AnalysisError(f"{where}: field {name} is replaced twice")
+        sl = {t.args[1] for t in terms_in(val) if t.head == "sub" and t.args[0] == sroot and isinstance(t.args[1], SliceV)}
+        if len(sl) != 1:
+            raise AnalysisError(f"{where}: the new value of {name} is not taken from one slice of the state vector: "
+                                f"{show(val)[:200]}")
+        s = sl.pop()
+        lo, hi = Lin.of(0 if s.lo is None else s.lo), Lin.of(s.hi)
+        if s.step is not None or lo is None or hi is None:
+            raise AnalysisError(f"{where}: unsupported slice state[{s!r}] for {name}")
+        out[name] = (lo, hi, _converted(val))
+    return out
+
+
+STATE_API = {"state_size": ("mj_stateSize", ("m",)), "get_state": ("mj_getState", ("m", "d")),
+             "set_state": ("mj_setState", ("m", "d", "state"))}
+
+
 def check_state(res, H, sources, classes, repo):
     rel = f"{MJX}/io.py"
     io = sources["io.py"]
@@ -605,93 +1984,137 @@ def check_state(res, H, sources, classes, repo):
     if st_enum is None:
         raise AnalysisError("anchor vanished: enum mjtState")
     nstate = st_enum.get("mjNSTATE")
-    single = [n for n, v in st_enum.items() if n.startswith("mjSTATE_") and v > 0 and v & (v - 1) == 0]
-    if nstate is None or len(single) != nstate:
+    single = sorted((n for n, v in st_enum.items() if n.startswith("mjSTATE_") and v > 0 and v & (v - 1) == 0),
+                    key=lambda n: st_enum[n])
+    if nstate is None or len(single) != nstate or [st_enum[n] for n in single] != [1 << i for i in range(nstate)]:
         raise AnalysisError(f"mjtState: {len(single)} single-bit elements but mjNSTATE = {nstate}")
     cfield = dict((k, v[0]) for k, v in cptr.items())
     for k, f in cspecial.items():
         if k in cfield and cfield[k] != f:
             raise AnalysisError(f"{SUPPORT_C}: {k} maps to both {cfield[k]} and {f}")
         cfield[k] = f
-    res.rule("R-STATE-MAP", "C (mj_stateElemPtr + special cases) and MJX (_STATE_MAP) map every mjtState element to the "
-             "same data field", floor=14)
-    res.rule("R-STATE-SIZE", "C mj_stateElemSize and MJX _state_elem_size give every element the same size k*m.n",
-             floor=14)
-    res.rule("R-STATE-ORDER", "state_size/get_state/set_state walk elements in ascending bit order under `element & spec` "
-             "like the C loops; non-mjtNum elements are converted in both directions", floor=7)
-
-    # --- _STATE_MAP
-    sm = module_literal(io, "_STATE_MAP", rel)
-    pe = PE(rel, {})
-    smap = pe.ev(sm.value, {})
-    if not isinstance(smap, dict) or not all(isinstance(k, tuple) and k[:2] == ("enum", "mjtState") for k in smap):
-        raise AnalysisError(f"{rel}:{sm.lineno}: _STATE_MAP is not a {{mujoco.mjtState.X: name}} literal")
-    if len({k for k in smap}) != len(sm.value.keys):
-        raise AnalysisError(f"{rel}:{sm.lineno}: _STATE_MAP repeats a key")
-    pmap = {k[2]: v for k, v in smap.items()}
+    res.rule("R-STATE-MAP", "C (mj_stateElemPtr + special cases) and MJX (the field get_state reads / set_state replaces for "
+             "each single-element signature) map every mjtState element to the same data field", floor=14)
+    res.rule("R-STATE-SIZE", "C mj_stateElemSize and MJX (state_size of a single element, width of the slice set_state "
+             "consumes) give every element the same size k*m.n", floor=14)
+    res.rule("R-STATE-ORDER", "state_size/get_state/set_state select the elements with `element & spec` and lay them out in "
+             "ascending bit order like the C loops; non-mjtNum elements are converted in both directions", floor=7)
     data_fields = set(c43.class_fields(classes, "Data") or ())
     model_fields = set(c43.class_fields(classes, "Model") or ())
     if not data_fields or not model_fields:
         raise AnalysisError(f"{MJX}/types.py: anchor vanished: Data / Model fields")
     mjdata = set(H.public_fields("mjData"))
     for el in single:
-        key = f"mjtState.{el}"
-        cf, pf = cfield.get(el), pmap.get(el)
-        if cf is None:
+        if el not in cfield:
             raise AnalysisError(f"{SUPPORT_C}: no element pointer for {el}")
-        if pf is None:
-            res.bad("R-STATE-MAP", key, rel, sm.lineno, f"{el} is a state element of the C API (field {cf}) but has no "
-                    f"entry in _STATE_MAP: get_state/set_state raise ValueError for a signature C accepts")
-        elif pf != cf:
-            res.bad("R-STATE-MAP", key, rel, sm.lineno, f"{el}: C reads/writes d->{cf} ({SUPPORT_C}:"
-                    f"{clines['mj_stateElemPtr']}), _STATE_MAP says {pf!r}")
-        elif pf not in data_fields:
-            res.bad("R-STATE-MAP", key, rel, sm.lineno, f"{el} -> {pf!r}: types.Data has no field {pf}")
-        elif cf not in mjdata:
-            raise AnalysisError(f"{SUPPORT_C}: d->{cf} is not a member of mjData")
-        else:
-            res.ok("R-STATE-MAP", key, {"field": pf, "c": f"{SUPPORT_C}:{clines['mj_stateElemPtr']}",
-                                        "mjx": f"{rel}:{sm.lineno}"})
-    for el in pmap:
-        if el not in single:
-            res.bad("R-STATE-MAP", f"mjtState.{el}", rel, sm.lineno, f"_STATE_MAP has an entry for {el}, which is not a "
-                    f"single-bit element of mjtState handled by mj_stateElemSize/Ptr")
-
-    # --- sizes
-    fn = io_funcs.get("_state_elem_size")
-    if fn is None:
-        raise AnalysisError(f"{rel}: anchor vanished: _state_elem_size")
-    params = [a.arg for a in fn.args.args]
-    if len(params) != 2:
-        raise AnalysisError(f"{rel}:{fn.lineno}: _state_elem_size signature changed")
-    pe = PE(rel, {"_STATE_MAP": smap})
-    for el in single:
-        key = f"mjtState.{el}"
         if el not in csize:
             raise AnalysisError(f"{SUPPORT_C}: mj_stateElemSize has no case for {el}")
-        (ck, cf), cline = csize[el]
-        if el not in pmap:
-            res.bad("R-STATE-SIZE", key, rel, fn.lineno, f"{el} has no entry in _STATE_MAP, so _state_elem_size raises "
-                    f"ValueError where C returns {ck}" + (f"*m->{cf}" if cf else ""))
-            continue
-        kind, val = pe.run(fn, {params[0]: _Model(), params[1]: ("enum", "mjtState", el)})
-        if kind == "raise":
-            res.bad("R-STATE-SIZE", key, rel, fn.lineno, f"_state_elem_size raises {val} for {el}; C returns "
-                    f"{ck}*m->{cf}" if cf else f"_state_elem_size raises {val} for {el}; C returns {ck}")
-            continue
-        if isinstance(val, bool) or not isinstance(val, (int, Sym)):
-            raise AnalysisError(f"{rel}:{fn.lineno}: _state_elem_size({el}) evaluates to {val!r}")
-        pk, pf = (val, None) if isinstance(val, int) else (val.k, val.field)
-        if (pk, pf) != (ck, cf):
-            res.bad("R-STATE-SIZE", key, rel, fn.lineno, f"{el}: MJX size is {pk}{'*m.' + pf if pf else ''}, C size is "
-                    f"{ck}{'*m->' + cf if cf else ''} ({SUPPORT_C}:{cline})")
-        elif pf is not None and pf not in model_fields:
-            res.bad("R-STATE-SIZE", key, rel, fn.lineno, f"{el}: size field {pf} is not a field of types.Model")
-        else:
-            res.ok("R-STATE-SIZE", key, {"size": f"{pk}" + (f"*m.{pf}" if pf else ""), "c": f"{SUPPORT_C}:{cline}"})
+        if cfield[el] not in mjdata:
+            raise AnalysisError(f"{SUPPORT_C}: d->{cfield[el]} is not a member of mjData")
+    if len(set(cfield[el] for el in single)) != len(single):
+        raise AnalysisError(f"{SUPPORT_C}: two state elements share a data field")
 
-    # --- loop order and conversions
-    # non-mjtNum storage: from the headers
+    # --- run the three API functions of io.py: concrete signature, symbolic model / data / state vector
+    it = Interp(rel, io, H)
+    M, D, S = root("m"), root("d"), root("state")
+    roots = {"m": M, "d": D, "state": S}
+    for pyf, (_, roles) in STATE_API.items():
+        fn = io_funcs.get(pyf)
+        if fn is None:
+            raise AnalysisError(f"{rel}: anchor vanished: {pyf}")
+        a = fn.args
+        if len(a.posonlyargs + a.args) != len(roles) + 1 or a.vararg or a.kwarg or a.kwonlyargs:
+            raise AnalysisError(f"{rel}:{fn.lineno}: {pyf} signature changed")
+
+    def run(pyf, spec):
+        return it.call_function(pyf, [roots[r] for r in STATE_API[pyf][1]] + [spec])
+
+    def spec_of(els):
+        return sum(st_enum[e] for e in els)
+
+    def c_lin(el):
+        (k, f), _ = csize[el]
+        return Lin({T("attr", M, f): k}) if f else Lin({}, k)
+    facts = {}
+    for el in single:
+        f = facts[el] = {}
+        kind, v = run("state_size", st_enum[el])
+        f["size"] = ("raise", v) if kind == "raise" else ("ok", v)
+        kind, v = run("get_state", st_enum[el])
+        f["get"] = ("raise", v) if kind == "raise" else ("ok", _state_items(v, D, f"{rel}: get_state({el})"))
+        kind, v = run("set_state", st_enum[el])
+        f["set"] = ("raise", v) if kind == "raise" else ("ok", _state_updates(v, D, S, f"{rel}: set_state({el})"))
+    gline, sline, zline = (io_funcs[f_].lineno for f_ in ("get_state", "set_state", "state_size"))
+
+    # --- element -> field
+    good = set()
+    for el in single:
+        key = f"mjtState.{el}"
+        cf = cfield[el]
+        g, s = facts[el]["get"], facts[el]["set"]
+        raised = [f"{nm} raises {x[1]}" for nm, x in (("get_state", g), ("set_state", s)) if x[0] == "raise"]
+        if raised:
+            res.bad("R-STATE-MAP", key, rel, gline, f"{el} is a state element of the C API (field {cf}) but MJX has no "
+                    f"mapping for it: {' and '.join(raised)} for a signature C accepts")
+            continue
+        gf, sf = [x[0] for x in g[1]], sorted(s[1])
+        if len(gf) != 1 or len(sf) != 1:
+            res.bad("R-STATE-MAP", key, rel, gline, f"{el}: C reads/writes exactly d->{cf} ({SUPPORT_C}:"
+                    f"{clines['mj_stateElemPtr']}); for this signature get_state reads {gf} and set_state replaces {sf}")
+        elif gf[0] != sf[0]:
+            res.bad("R-STATE-MAP", key, rel, sline, f"{el}: get_state reads d.{gf[0]} but set_state replaces d.{sf[0]}; C "
+                    f"uses d->{cf} in both directions")
+        elif gf[0] != cf:
+            res.bad("R-STATE-MAP", key, rel, gline, f"{el}: C reads/writes d->{cf} ({SUPPORT_C}:"
+                    f"{clines['mj_stateElemPtr']}), MJX maps it to {gf[0]!r}")
+        elif cf not in data_fields:
+            res.bad("R-STATE-MAP", key, rel, gline, f"{el} -> {cf!r}: types.Data has no field {cf}")
+        else:
+            good.add(el)
+            res.ok("R-STATE-MAP", key, {"field": cf, "c": f"{SUPPORT_C}:{clines['mj_stateElemPtr']}",
+                                        "mjx": f"{rel}:{gline}"})
+    # tables keyed by mjtState that the API consults must not know elements C does not handle one by one
+    for name in sorted(it.greads):
+        tab = it.gcache.get(name)
+        if isinstance(tab, dict) and tab and all(isinstance(k, Enum) and k.etype == "mjtState" for k in tab):
+            line = next((st.lineno for st in io.body if isinstance(st, (ast.Assign, ast.AnnAssign)) and any(
+                isinstance(x, ast.Name) and x.id == name for x in ast.walk(st.targets[0] if isinstance(st, ast.Assign)
+                                                                            else st.target))), 0)
+            for k in tab:
+                if k.name not in single:
+                    res.bad("R-STATE-MAP", f"mjtState.{k.name}", rel, line, f"{name} has an entry for {k.name}, which is not "
+                            f"a single-bit element of mjtState handled by mj_stateElemSize/Ptr")
+
+    # --- sizes
+    sized = set()
+    for el in single:
+        key = f"mjtState.{el}"
+        (ck, cf), cline = csize[el]
+        ctext = _size_text(ck, cf, "->")
+        z, s = facts[el]["size"], facts[el]["set"]
+        if z[0] == "raise":
+            res.bad("R-STATE-SIZE", key, rel, zline, f"state_size raises {z[1]} for {el}; C returns {ctext}")
+            continue
+        ps = Lin.of(z[1])
+        if ps is None or isinstance(z[1], bool):
+            raise AnalysisError(f"{rel}:{zline}: state_size({el}) evaluates to {show(z[1])[:200]}")
+        width = None
+        if s[0] == "ok" and len(s[1]) == 1:
+            lo, hi, _ = next(iter(s[1].values()))
+            width = hi.add(lo, -1)
+        if ps != c_lin(el):
+            res.bad("R-STATE-SIZE", key, rel, zline, f"{el}: MJX size is {show(ps.simp())}, C size is {ctext} "
+                    f"({SUPPORT_C}:{cline})")
+        elif width is not None and width != c_lin(el):
+            res.bad("R-STATE-SIZE", key, rel, sline, f"{el}: set_state consumes {show(width.simp())} values of the state "
+                    f"vector, state_size and C ({SUPPORT_C}:{cline}) say {ctext}")
+        elif cf is not None and cf not in model_fields:
+            res.bad("R-STATE-SIZE", key, rel, zline, f"{el}: size field {cf} is not a field of types.Model")
+        else:
+            sized.add(el)
+            res.ok("R-STATE-SIZE", key, {"size": show(ps.simp()), "c": f"{SUPPORT_C}:{cline}"})
+
+    # --- selection, order, conversions, range check
     nonnum = {}
     for el, f in cfield.items():
         fld = H.field("mjData", f)
@@ -706,99 +2129,161 @@ def check_state(res, H, sources, classes, repo):
     for f in ("mj_stateSize", "mj_getState", "mj_setState"):
         if not cloops[f]:
             raise AnalysisError(f"{SUPPORT_C}: {f} no longer has the `for i<mjNSTATE; element = 1<<i; if (element & sig)` shape")
-    for pyf, cfn, need_special in (("state_size", "mj_stateSize", False), ("get_state", "mj_getState", True),
-                                   ("set_state", "mj_setState", True)):
-        pfn = io_funcs.get(pyf)
-        if pfn is None:
-            raise AnalysisError(f"{rel}: anchor vanished: {pyf}")
-        shape = py_loop_shape(pfn)
-        if shape is None:
-            res.bad("R-STATE-ORDER", f"{pyf}:order", rel, pfn.lineno, f"{pyf} does not walk `for i in range(mjNSTATE): "
-                    f"element = mjtState(1 << i); if element & spec` as {cfn} does: the concatenation order of the state "
-                    f"vector is not established")
-            elem, guard = None, pfn
-        else:
-            loop, elem, guard = shape
-            res.ok("R-STATE-ORDER", f"{pyf}:order", {"c": f"{SUPPORT_C}:{clines[cfn]}", "mjx": f"{rel}:{loop.lineno}"})
-        if need_special:
-            sp = py_specials(guard, elem)
-            for el, (f, ty) in sorted(nonnum.items()):
-                if el in sp:
-                    res.ok("R-STATE-ORDER", f"{pyf}:convert:{el}", {"c_type": ty, "field": f})
-                else:
-                    res.bad("R-STATE-ORDER", f"{pyf}:convert:{el}", rel, getattr(guard, 'lineno', pfn.lineno), f"{pyf} does not convert {el} "
-                            f"(C stores d->{f} as {ty} and special-cases it in {cfn})")
-        # bounds check on the signature, as in C
-        has_bound = any(isinstance(n, ast.Compare) and isinstance(n.ops[0], ast.GtE) and any(
-            isinstance(x, ast.BinOp) and isinstance(x.op, ast.LShift) for x in ast.walk(n.comparators[0]))
-            for n in ast.walk(pfn))
-        if pyf != "state_size":
-            if has_bound:
-                res.ok("R-STATE-ORDER", f"{pyf}:bound", None)
+    usable = [el for el in single if el in good and el in sized]
+    masks = [usable, []] + [[e for e in usable if e != x] for x in usable] + \
+        [[a, b] for a, b in zip(usable, usable[1:])] + [usable[::2], usable[1::2]]
+    seen_masks, specs = set(), []
+    for m_ in masks:
+        if spec_of(m_) not in seen_masks:
+            seen_masks.add(spec_of(m_))
+            specs.append(m_)
+    conv1 = {el: (facts[el]["get"][1][0][1], next(iter(facts[el]["set"][1].values()))[2]) for el in usable}
+    for pyf, (cfn, _) in STATE_API.items():
+        pfn = io_funcs[pyf]
+        problem = None
+        for els in (specs if len(usable) > 1 else []):
+            spec = spec_of(els)
+            where = f"{rel}: {pyf}(spec={spec:#x})"
+            kind, v = run(pyf, spec)
+            if kind == "raise":
+                problem = f"{pyf} raises {v} for the signature {spec:#x}, which {cfn} accepts"
+            elif pyf == "state_size":
+                want = Lin({}, 0)
+                for e in els:
+                    want = want.add(c_lin(e))
+                got = Lin.of(v)
+                if got is None:
+                    raise AnalysisError(f"{where} evaluates to {show(v)[:200]}")
+                if got != want:
+                    problem = (f"state_size(spec={spec:#x}) is {show(got.simp())} but the elements selected by "
+                               f"`element & spec` have total size {show(want.simp())}")
+            elif pyf == "get_state":
+                items = _state_items(v, D, where)
+                want = [(cfield[e], conv1[e][0]) for e in els]
+                if items != want:
+                    problem = (f"get_state(spec={spec:#x}) concatenates {[x[0] for x in items]}"
+                               + (" (conversions differ)" if [x[0] for x in items] == [x[0] for x in want] else "") +
+                               f"; {cfn} writes {[x[0] for x in want]} (ascending bits of `element & spec`)")
             else:
-                res.bad("R-STATE-ORDER", f"{pyf}:bound", rel, pfn.lineno, f"{pyf} does not reject spec >= 1<<mjNSTATE "
-                        f"as {cfn} does")
+                ups = _state_updates(v, D, S, where)
+                if set(ups) != {cfield[e] for e in els}:
+                    problem = (f"set_state(spec={spec:#x}) replaces {sorted(ups)}; {cfn} writes "
+                               f"{[cfield[e] for e in els]}")
+                else:
+                    adr = Lin({}, 0)
+                    for e in els:
+                        lo, hi, cv = ups[cfield[e]]
+                        end = adr.add(c_lin(e))
+                        if lo != adr or hi != end or cv != conv1[e][1]:
+                            problem = (f"set_state(spec={spec:#x}) takes {cfield[e]} from state[{show(lo.simp())}:"
+                                       f"{show(hi.simp())}]" + ("" if cv == conv1[e][1] else " (conversion differs)") +
+                                       f"; {cfn} reads it at [{show(adr.simp())}:{show(end.simp())}] (elements in ascending "
+                                       f"bit order)")
+                            break
+                        adr = end
+            if problem:
+                break
+        if problem:
+            res.bad("R-STATE-ORDER", f"{pyf}:order", rel, pfn.lineno, problem + f" ({SUPPORT_C}:{clines[cfn]})")
+        elif len(usable) > 1:
+            res.ok("R-STATE-ORDER", f"{pyf}:order", {"c": f"{SUPPORT_C}:{clines[cfn]}", "mjx": f"{rel}:{pfn.lineno}",
+                                                     "signatures_evaluated": len(specs) + len(single)})
+        if pyf == "state_size":
+            continue
+        idx = 0 if pyf == "get_state" else 1
+        for el, (f, ty) in sorted(nonnum.items()):
+            r = facts[el]["get" if idx == 0 else "set"]
+            if r[0] == "ok" and len(r[1]) == 1 and (r[1][0][1] if idx == 0 else next(iter(r[1].values()))[2]):
+                res.ok("R-STATE-ORDER", f"{pyf}:convert:{el}", {"c_type": ty, "field": f})
+            else:
+                res.bad("R-STATE-ORDER", f"{pyf}:convert:{el}", rel, pfn.lineno, f"{pyf} does not convert {el} "
+                        f"(C stores d->{f} as {ty} and special-cases it in {cfn})")
+        # range check on the signature, as in C
+        kind, v = run(pyf, 1 << nstate)
+        kind2, _ = run(pyf, (1 << nstate) | 1)
+        if kind == "raise" and kind2 == "raise":
+            res.ok("R-STATE-ORDER", f"{pyf}:bound", {"raises": v})
+        else:
+            res.bad("R-STATE-ORDER", f"{pyf}:bound", rel, pfn.lineno, f"{pyf} does not reject spec >= 1<<mjNSTATE "
+                    f"as {cfn} does")
     res.extra["c_state_table"] = {el: {"field": cfield[el], "size": f"{csize[el][0][0]}" +
                                        (f"*{csize[el][0][1]}" if csize[el][0][1] else "")} for el in single}
+    res.extra["state_validation_guards_assumed_not_taken"] = sorted({c for _, c in it.assumed})[:10]
+
+
+def _impl_branch(io_funcs, api, impl, rel):
+    """the module-level function `api` dispatches to under `impl == types.Impl.<impl>`"""
+    fn = io_funcs.get(api)
+    if fn is None:
+        raise AnalysisError(f"{rel}: anchor vanished: {api}")
+    for n in ast.walk(fn):
+        if isinstance(n, ast.If) and any(r == "types" and p == ["Impl", impl] for r, p, _ in c43.maximal_chains(n.test)):
+            for st in n.body:
+                for call in ast.walk(st):
+                    if isinstance(call, ast.Call) and isinstance(call.func, ast.Name) and call.func.id in io_funcs:
+                        return call.func.id
+    raise AnalysisError(f"{rel}:{fn.lineno}: {api} has no `if impl == types.Impl.{impl}: return <local function>(...)` branch")
+
+
+def _is_types_class(f, klass=None):
+    if not isinstance(f, Ext):
+        return None
+    parts = f.name.split(".")
+    if len(parts) >= 2 and parts[-2] == "types" and (klass is None or parts[-1] == klass):
+        return parts[-1]
+    return None
+
+
+def _zeros_shape(v):
+    """dims of `<numpy-like>.zeros(shape, ...)`, else None"""
+    if isinstance(v, T) and v.head == "call" and isinstance(v.args[0], Ext) and v.args[0].name.split(".")[-1] == "zeros":
+        pos, kws = v.args[1], dict(v.args[2])
+        shape = pos[0] if pos else kws.get("shape")
+        if isinstance(shape, tuple):
+            return shape
+        if shape is not None:
+            return (shape,)
+    return None
 
 
 def check_make_data(res, H, sources, classes, repo):
     res.rule("R-MAKEDATA", "make_data builds exactly the fields of types.Data/DataJAX, public zero fields with the shape "
              "of the C arrays (MJDATA_POINTERS rows)", floor=110)
     rel = f"{MJX}/io.py"
-    io_funcs = c43.functions(sources["io.py"])
-    fn = io_funcs.get("_make_data_jax")
-    pub = io_funcs.get("_make_data_public_fields")
-    if fn is None or pub is None:
-        raise AnalysisError(f"{rel}: anchor vanished: _make_data_jax / _make_data_public_fields")
-
-    def dict_literals(f, name):
-        """the literal dict assigned to `name` whose values are tuples (shape..., dtype)."""
-        for v in c43._assigned(f, name):
-            if isinstance(v, ast.Dict) and all(isinstance(k, ast.Constant) for k in v.keys):
-                return v
-        return None
-
-    def returned_name(f):
-        for n in ast.walk(f):
-            if isinstance(n, ast.Return) and isinstance(n.value, ast.Name):
-                return n.value.id
-        return None
-    pname = returned_name(pub)
-    zpub = dict_literals(pub, pname) if pname else None
-    if zpub is None:
-        raise AnalysisError(f"{rel}:{pub.lineno}: _make_data_public_fields does not return a literal table")
-    rows = xmacro_rows(repo, "MJDATA_POINTERS")
-    mparam = pub.args.args[0].arg
-
-    def construct(klass, f):
-        """keywords of the types.<klass>(...) call in f: explicit names + expanded ** sources."""
-        for n in ast.walk(f):
-            if isinstance(n, ast.Call) and isinstance(n.func, ast.Attribute) and c43.chain(n.func) == ("types", [klass]):
-                names, stars = [], []
-                for kw in n.keywords:
-                    if kw.arg is None:
-                        stars.append(kw.value)
-                    else:
-                        names.append(kw.arg)
-                return n, names, stars
-        return None
+    io = sources["io.py"]
+    io_funcs = c43.functions(io)
+    maker = _impl_branch(io_funcs, "make_data", "JAX", rel)
+    fn = io_funcs[maker]
+    params = fn.args.posonlyargs + fn.args.args
+    if not params:
+        raise AnalysisError(f"{rel}:{fn.lineno}: {maker} takes no model")
+    # run the JAX maker with a symbolic model; constructions of types.* are events of the run
+    it = Interp(rel, io, H)
+    M = root("m")
+    kind, val = it.call_function(maker, [M] + [root(p.arg) for p in params[1:]])
+    if kind == "raise":
+        raise AnalysisError(f"{rel}:{fn.lineno}: {maker} raises {val} for every model")
+    built = {}
+    for t, fork, line in it.events:
+        klass = _is_types_class(t.args[0]) if t.head == "call" else None
+        if klass in ("Data", "DataJAX"):
+            if fork:
+                raise AnalysisError(f"{rel}:{line}: types.{klass} is constructed under a condition that is not decidable")
+            if klass in built:
+                raise AnalysisError(f"{rel}:{line}: {maker} constructs types.{klass} twice")
+            if t.args[1]:
+                raise AnalysisError(f"{rel}:{line}: types.{klass}(...) with positional arguments")
+            built[klass] = (t, line)
     for klass in ("Data", "DataJAX"):
-        c = construct(klass, fn)
-        if c is None:
-            raise AnalysisError(f"{rel}:{fn.lineno}: _make_data_jax does not construct types.{klass}")
-        call, names, stars = c
-        keys = list(names)
-        for s in stars:
-            if isinstance(s, ast.Call) and isinstance(s.func, ast.Name) and s.func.id == pub.name:
-                keys += [k.value for k in zpub.keys]
-            elif isinstance(s, ast.Name):
-                d = dict_literals(fn, s.id)
-                if d is None:
-                    raise AnalysisError(f"{rel}:{call.lineno}: cannot resolve **{s.id}")
-                keys += [k.value for k in d.keys]
-            else:
-                raise AnalysisError(f"{rel}:{call.lineno}: unsupported ** argument in types.{klass}(...)")
+        if klass not in built:
+            raise AnalysisError(f"{rel}:{fn.lineno}: {maker} does not construct types.{klass}")
+    if not any(t == built["Data"][0] for t in terms_in(val)):
+        raise AnalysisError(f"{rel}:{fn.lineno}: {maker} does not return the types.Data it constructs")
+    if not any(t == built["DataJAX"][0] for _, v in built["Data"][0].args[2] for t in terms_in(v)):
+        raise AnalysisError(f"{rel}:{fn.lineno}: the types.DataJAX {maker} constructs is not part of the types.Data it returns")
+    for klass in ("Data", "DataJAX"):
+        call, line = built[klass]
+        keys = [k for k, _ in call.args[2]]
         want = c43.class_fields(classes, klass)
         if want is None:
             raise AnalysisError(f"{MJX}/types.py: cannot resolve the fields of {klass}")
@@ -807,70 +2292,77 @@ def check_make_data(res, H, sources, classes, repo):
             if keys.count(k) == 1:
                 res.ok("R-MAKEDATA", key, None)
             elif k not in keys:
-                res.bad("R-MAKEDATA", key, rel, call.lineno, f"make_data never sets types.{klass}.{k} (put_data does): "
+                res.bad("R-MAKEDATA", key, rel, line, f"make_data never sets types.{klass}.{k} (put_data does): "
                         f"TypeError / different pytree")
             else:
-                res.bad("R-MAKEDATA", key, rel, call.lineno, f"make_data sets types.{klass}.{k} twice")
+                res.bad("R-MAKEDATA", key, rel, line, f"make_data sets types.{klass}.{k} twice")
         for k in keys:
             if k not in want:
-                res.bad("R-MAKEDATA", f"make_data:{klass}.{k}", rel, call.lineno, f"make_data passes {k} to types.{klass}, "
+                res.bad("R-MAKEDATA", f"make_data:{klass}.{k}", rel, line, f"make_data passes {k} to types.{klass}, "
                         f"which has no such field")
     # shapes of the public zero fields
+    rows = xmacro_rows(repo, "MJDATA_POINTERS")
+    call, cline = built["Data"]
     width = {}
-    for k, v in zip(zpub.keys, zpub.values):
-        name = k.value
+    nzero = 0
+    for name, v in call.args[2]:
+        dims = _zeros_shape(v)
+        if dims is None:
+            continue
+        nzero += 1
         key = f"shape:{name}"
-        if not isinstance(v, ast.Tuple) or not v.elts:
-            raise AnalysisError(f"{rel}:{k.lineno}: zero-field entry {name} is not a (shape..., dtype) tuple")
-        dims = v.elts[:-1]
         row = rows.get(name)
         if row is None:
             fld = H.field("mjData", name)
             if fld is not None and not dims and fld["t"] in ("mjtNum", "double"):
                 res.ok("R-MAKEDATA", key, {"scalar": fld["t"]})
             else:
-                res.bad("R-MAKEDATA", key, rel, k.lineno, f"zero field {name} with shape rank {len(dims)} has no "
+                res.bad("R-MAKEDATA", key, rel, cline, f"zero field {name} with shape rank {len(dims)} has no "
                         f"MJDATA_POINTERS row and is not a scalar mjtNum member of mjData")
             continue
         if not dims:
-            res.bad("R-MAKEDATA", key, rel, k.lineno, f"{name} is a scalar in make_data but an array ({row['nr']} x "
+            res.bad("R-MAKEDATA", key, rel, cline, f"{name} is a scalar in make_data but an array ({row['nr']} x "
                     f"{row['nc']}) in C")
             continue
-        lead = c43.chain(dims[0]) if isinstance(dims[0], ast.Attribute) else None
+        lead = _as_size(dims[0], M)
         tail = 1
         ok = True
         for d in dims[1:]:
-            if isinstance(d, ast.Constant) and isinstance(d.value, int):
-                tail *= d.value
+            if isinstance(d, int) and not isinstance(d, bool):
+                tail *= d
             else:
                 ok = False
         nc = row["nc"]
         ncv = int(nc) if nc.isdigit() else H.macros.get(nc, H.consts.get(nc))
-        if not ok or lead is None or lead[0] != mparam or len(lead[1]) != 1:
-            raise AnalysisError(f"{rel}:{k.lineno}: shape of zero field {name} is not (m.<n>, ints...)")
+        if not ok or lead is None or lead[0] != 1 or lead[1] is None:
+            raise AnalysisError(f"{rel}:{cline}: shape {show(dims)} of zero field {name} is not (m.<n>, ints...)")
+        lead = lead[1]
         if ncv is None:
             raise AnalysisError(f"X-macro extent {nc!r} of {name} is not a known constant")
-        same_dim = lead[1][0] == row["nr"]
+        same_dim = lead == row["nr"]
         equiv = None
-        if not same_dim and DIM_EQUIV.get(row["nr"], (None,))[0] == lead[1][0]:
+        if not same_dim and DIM_EQUIV.get(row["nr"], (None,))[0] == lead:
             if "holds" not in width:
                 width["holds"], width["detail"] = unit_width_argument(repo, H, sources, classes)
                 res.extra["unit_width_argument"] = width["detail"]
             if width["holds"]:
-                equiv = f"{row['nr']} == {lead[1][0]} for every accepted model: " + DIM_EQUIV[row["nr"]][1]
+                equiv = f"{row['nr']} == {lead} for every accepted model: " + DIM_EQUIV[row["nr"]][1]
         if (not same_dim and equiv is None) or tail != ncv:
             why = ""
             if not same_dim and row["nr"] in DIM_EQUIV and not width.get("holds", True):
                 ug = width["detail"]["unguarded"][0]
-                why = (f"; the argument that {row['nr']} == {lead[1][0]} for accepted models no longer holds: "
+                why = (f"; the argument that {row['nr']} == {lead} for accepted models no longer holds: "
                        f"{COMPILER_CC}:{ug['line']} sets {ug['var']} = {ug['rhs']} without a guard MJX rejects")
-            res.bad("R-MAKEDATA", key, rel, k.lineno, f"make_data shape of {name} is (m.{lead[1][0]}, ..x{tail}) but the C "
+            res.bad("R-MAKEDATA", key, rel, cline, f"make_data shape of {name} is (m.{lead}, ..x{tail}) but the C "
                     f"array is ({row['nr']} x {nc}): put_data of a fresh MjData yields a different shape" + why)
         else:
-            smp = {"c_extent": f"{row['nr']} x {nc}", "mjx_shape": ast.unparse(v)}
+            smp = {"c_extent": f"{row['nr']} x {nc}", "mjx_shape": show(dims)}
             if equiv:
                 smp["dimension_equivalence"] = equiv
             res.ok("R-MAKEDATA", key, smp)
+    if nzero == 0:
+        raise AnalysisError(f"{rel}:{cline}: no field of types.Data is built as zeros(shape) in {maker}")
+    res.extra["make_data_root"] = maker
 
 
 COPY_CALLS = {("copy", "copy"), ("copy", "deepcopy"), ("np", "array"), ("np", "copy"), ("numpy", "array"), ("numpy", "copy"),
@@ -1047,6 +2539,170 @@ def check_static_hash(res, sources):
         res.ok("R-STATIC-HASH", f"{cls.name}:content-digest", {"line": init.lineno})
 
 
+# --------------------------------------------------------------------------------------
+# self-test (thorough tier): scratch-copy mutants
+
+IO = f"{MJX}/io.py"
+DC = f"{MJX}/dataclasses.py"
+_GET_LOOP = ("  state = []\n  for i in range(mujoco.mjtState.mjNSTATE.value):\n    element = mujoco.mjtState(1 << i)\n"
+             "    if element & spec_int:\n      if element not in _STATE_MAP:\n"
+             "        raise ValueError(f'Invalid state element {element}')\n      name = _STATE_MAP[element]\n"
+             "      value = getattr(d, name)\n      if element == mujoco.mjtState.mjSTATE_EQ_ACTIVE:\n"
+             "        value = value.astype(jp.float32)\n      state.append(value.flatten())\n")
+_SET_LOOP = ("  updates = {}\n  offset = 0\n  for i in range(mujoco.mjtState.mjNSTATE.value):\n    element = mujoco.mjtState(1 << i)\n"
+             "    if element & spec_int:\n      if element not in _STATE_MAP:\n"
+             "        raise ValueError(f'Invalid state element {element}')\n      name = _STATE_MAP[element]\n"
+             "      size = _state_elem_size(m, element)\n      value = state[offset : offset + size]\n"
+             "      if name == 'time':\n        value = value[0]\n      else:\n        orig_shape = getattr(d, name).shape\n"
+             "        value = value.reshape(orig_shape)\n      if element == mujoco.mjtState.mjSTATE_EQ_ACTIVE:\n"
+             "        value = value.astype(bool)\n      updates[name] = value\n      offset += size\n\n  return d.replace(**updates)\n")
+_SIZE_LOOP = ("  size = 0\n  spec_int = int(spec)\n  for i in range(mujoco.mjtState.mjNSTATE.value):\n"
+              "    element = mujoco.mjtState(1 << i)\n    if element & spec_int:\n"
+              "      size += _state_elem_size(m, element)\n  return size\n")
+_SELECT_HELPER = ("def _selected(spec_int):\n  for i in range(mujoco.mjtState.mjNSTATE.value):\n"
+                  "    element = mujoco.mjtState(1 << i)\n    if element & spec_int:\n      yield element\n\n\n")
+_SIZE_BODY_OLD_HEAD = "  if name == 'time':\n    return 1\n  if name in (\n"
+_ZEROS_PUBLIC = ("  zero_fields = {\n      k: np.zeros(v[:-1], dtype=v[-1]) for k, v in zero_fields.items()\n  }\n"
+                 "  return zero_fields\n")
+_ZEROS_IMPL = ("  zero_impl_fields = {\n      k: np.zeros(v[:-1], dtype=v[-1]) for k, v in zero_impl_fields.items()\n  }\n")
+_COPY_IMPL = "  data_jax = types.DataJAX(**{k: copy.copy(v) for k, v in impl_fields.items()})\n"
+MUTANTS = [
+    # R-STATE-MAP: an element is bound to another Data field / to none
+    {"id": "map-wrong-field", "expect": ("R-STATE-MAP", "mjSTATE_WARMSTART"),
+     "edits": [(IO, "    mujoco.mjtState.mjSTATE_WARMSTART: 'qacc_warmstart',", "    mujoco.mjtState.mjSTATE_WARMSTART: 'qacc',")]},
+    {"id": "map-swapped-mocap", "expect": ("R-STATE-MAP", "mjSTATE_MOCAP_POS"),
+     "edits": [(IO, "    mujoco.mjtState.mjSTATE_MOCAP_POS: 'mocap_pos',\n    mujoco.mjtState.mjSTATE_MOCAP_QUAT: 'mocap_quat',",
+                "    mujoco.mjtState.mjSTATE_MOCAP_POS: 'mocap_quat',\n    mujoco.mjtState.mjSTATE_MOCAP_QUAT: 'mocap_pos',")]},
+    {"id": "map-missing-element", "expect": ("R-STATE-MAP", "mjSTATE_PLUGIN"),
+     "edits": [(IO, "    mujoco.mjtState.mjSTATE_PLUGIN: 'plugin_state',\n", "")]},
+    {"id": "map-composite-key", "expect": ("R-STATE-MAP", "mjSTATE_PHYSICS"),
+     "edits": [(IO, "    mujoco.mjtState.mjSTATE_PLUGIN: 'plugin_state',\n",
+                "    mujoco.mjtState.mjSTATE_PLUGIN: 'plugin_state',\n    mujoco.mjtState.mjSTATE_PHYSICS: 'qpos',\n")]},
+    {"id": "set-writes-other-field", "expect": ("R-STATE-MAP", "mjSTATE_CTRL"),
+     "edits": [(IO, "      updates[name] = value\n", "      updates['act' if name == 'ctrl' else name] = value\n")]},
+    # R-STATE-SIZE: wrong factor / wrong count
+    {"id": "size-wrong-factor", "expect": ("R-STATE-SIZE", "mjSTATE_MOCAP_QUAT"),
+     "edits": [(IO, "    if name == 'mocap_quat':\n      val *= 4", "    if name == 'mocap_quat':\n      val *= 3")]},
+    {"id": "size-wrong-count", "expect": ("R-STATE-SIZE", "mjSTATE_WARMSTART"),
+     "edits": [(IO, "            'qacc_warmstart': 'nv',", "            'qacc_warmstart': 'nq',")]},
+    {"id": "size-xfrc-per-body-3", "expect": ("R-STATE-SIZE", "mjSTATE_XFRC_APPLIED"),
+     "edits": [(IO, "    return 6 * m.nbody", "    return 3 * m.nbody")]},
+    {"id": "set-slice-too-short", "expect": ("R-STATE-SIZE", "mjSTATE_QVEL"),
+     "edits": [(IO, "      value = state[offset : offset + size]", "      value = state[offset : offset + size - (name == 'qvel')]")]},
+    # R-STATE-ORDER: order / selection / conversion / range check
+    {"id": "set-reversed-order", "expect": ("R-STATE-ORDER", "set_state:order"),
+     "edits": [(IO, "  updates = {}\n  offset = 0\n  for i in range(mujoco.mjtState.mjNSTATE.value):",
+                "  updates = {}\n  offset = 0\n  for i in reversed(range(mujoco.mjtState.mjNSTATE.value)):")]},
+    {"id": "get-prepends", "expect": ("R-STATE-ORDER", "get_state:order"),
+     "edits": [(IO, "      state.append(value.flatten())", "      state.insert(0, value.flatten())")]},
+    {"id": "set-offset-not-advanced-for-time", "expect": ("R-STATE-ORDER", "set_state:order"),
+     "edits": [(IO, "      updates[name] = value\n      offset += size", "      updates[name] = value\n      if name != 'time':\n        offset += size")]},
+    {"id": "size-ignores-mask-for-time", "expect": ("R-STATE-SIZE", "mjSTATE_QPOS"),
+     "edits": [(IO, "    if element & spec_int:\n      size += _state_elem_size(m, element)",
+                "    if element & spec_int or i == 0:\n      size += _state_elem_size(m, element)")]},
+    {"id": "get-mask-off-by-one", "expect": ("R-STATE-ORDER", "get_state:order"),
+     "edits": [(IO, "  state = []\n  for i in range(mujoco.mjtState.mjNSTATE.value):\n    element = mujoco.mjtState(1 << i)\n    if element & spec_int:",
+                "  state = []\n  for i in range(mujoco.mjtState.mjNSTATE.value):\n    element = mujoco.mjtState(1 << i)\n    if element & spec_int and not (i == 3 and spec_int & 4):")]},
+    {"id": "set-drops-bool-conversion", "expect": ("R-STATE-ORDER", "set_state:convert:mjSTATE_EQ_ACTIVE"),
+     "edits": [(IO, "      if element == mujoco.mjtState.mjSTATE_EQ_ACTIVE:\n        value = value.astype(bool)\n", "")]},
+    {"id": "get-drops-range-check", "expect": ("R-STATE-ORDER", "get_state:bound"),
+     "edits": [(IO, "  spec_int = int(spec)\n  if spec_int >= (1 << mujoco.mjtState.mjNSTATE.value):\n    raise ValueError(f'Invalid state spec {spec}')\n\n  state = []",
+                "  spec_int = int(spec)\n\n  state = []")]},
+    # R-MAKEDATA: field set and shapes
+    {"id": "makedata-drops-field", "expect": ("R-MAKEDATA", "make_data:Data.qfrc_fluid"),
+     "edits": [(IO, "      'qfrc_fluid': (m.nv, float_),\n", "")]},
+    {"id": "makedata-drops-impl-field", "expect": ("R-MAKEDATA", "make_data:DataJAX.cfrc_ext"),
+     "edits": [(IO, "      'cfrc_ext': (m.nbody, 6, float_),\n", "")]},
+    {"id": "makedata-wrong-width", "expect": ("R-MAKEDATA", "shape:cvel"),
+     "edits": [(IO, "      'cvel': (m.nbody, 6, float_),", "      'cvel': (m.nbody, 3, float_),")]},
+    {"id": "makedata-wrong-leading-dim", "expect": ("R-MAKEDATA", "shape:xanchor"),
+     "edits": [(IO, "      'xanchor': (m.njnt, 3, float_),", "      'xanchor': (m.nbody, 3, float_),")]},
+    {"id": "makedata-field-twice", "expect": ("R-MAKEDATA", "make_data:Data.qvel"),
+     "edits": [(IO, "      eq_active=m.eq_active0,\n      _impl=impl,", "      eq_active=m.eq_active0,\n      qvel=np.zeros((m.nv,), dtype=float_),\n      _impl=impl,")]},
+    # R-HOSTCOPY / R-STATIC-HASH
+    {"id": "put-data-no-copy", "expect": ("R-HOSTCOPY", "_put_data_jax:types.DataJAX"),
+     "edits": [(IO, _COPY_IMPL, "  data_jax = types.DataJAX(**impl_fields)\n")]},
+    {"id": "static-digest-memoised", "expect": ("R-STATIC-HASH", "content-digest"),
+     "edits": [(DC, "_T = TypeVar('_T')\n", "_T = TypeVar('_T')\n_DIGESTS = {}\n"),
+               (DC, "  def __init__(self, arr: np.ndarray):\n    if arr.size == 0:",
+                "  def __init__(self, arr: np.ndarray):\n    if id(arr) in _DIGESTS:\n      self._hash_key = _DIGESTS[id(arr)]\n"
+                "      self.array = arr\n      return\n    if arr.size == 0:")]},
+    # controls: behaviour-preserving shapes
+    {"id": "ctl-field-name-helper", "expect": None,
+     "edits": [(IO, "def _state_elem_size(m: types.Model, state_enum: mujoco.mjtState) -> int:",
+                "def _field_of(element):\n  if element not in _STATE_MAP:\n    raise ValueError(f'Invalid state element {element}')\n"
+                "  return _STATE_MAP[element]\n\n\ndef _state_elem_size(m: types.Model, state_enum: mujoco.mjtState) -> int:"),
+               (IO, "      if element not in _STATE_MAP:\n        raise ValueError(f'Invalid state element {element}')\n"
+                    "      name = _STATE_MAP[element]\n", "      name = _field_of(element)\n", 2)]},
+    {"id": "ctl-generator-and-sum", "expect": None,
+     "edits": [(IO, "def state_size(m: types.Model, spec: Union[int, mujoco.mjtState]) -> int:",
+                _SELECT_HELPER + "def state_size(m: types.Model, spec: Union[int, mujoco.mjtState]) -> int:"),
+               (IO, _SIZE_LOOP, "  return sum(_state_elem_size(m, e) for e in _selected(int(spec)))\n"),
+               (IO, _GET_LOOP, "  state = []\n  for element in _selected(spec_int):\n    value = getattr(d, _STATE_MAP[element])\n"
+                "    if element == mujoco.mjtState.mjSTATE_EQ_ACTIVE:\n      value = value.astype(jp.float32)\n"
+                "    state.append(value.flatten())\n")]},
+    {"id": "ctl-size-table", "expect": None,
+     "edits": [(IO, "def _state_elem_size(m: types.Model, state_enum: mujoco.mjtState) -> int:",
+                "_ELEM_DIMS = {'qpos': ('nq', 1), 'qvel': ('nv', 1), 'act': ('na', 1), 'history': ('nhistory', 1),\n"
+                "              'qacc_warmstart': ('nv', 1), 'ctrl': ('nu', 1), 'qfrc_applied': ('nv', 1),\n"
+                "              'xfrc_applied': ('nbody', 6), 'eq_active': ('neq', 1), 'mocap_pos': ('nmocap', 3),\n"
+                "              'mocap_quat': ('nmocap', 4), 'userdata': ('nuserdata', 1),\n"
+                "              'plugin_state': ('npluginstate', 1)}\n\n\n"
+                "def _state_elem_size(m: types.Model, state_enum: mujoco.mjtState) -> int:"),
+               (IO, _SIZE_BODY_OLD_HEAD, "  if name == 'time':\n    return 1\n  if name in _ELEM_DIMS:\n    count_attr, width = _ELEM_DIMS[name]\n"
+                "    return getattr(m, count_attr) * width if width != 1 else getattr(m, count_attr)\n  if name in (\n")]},
+    {"id": "ctl-get-while-loop", "expect": None,
+     "edits": [(IO, _GET_LOOP, "  state = []\n  i = 0\n  while i < mujoco.mjtState.mjNSTATE.value:\n    element = mujoco.mjtState(1 << i)\n    i += 1\n"
+                "    if not element & spec_int:\n      continue\n    value = getattr(d, _STATE_MAP[element])\n"
+                "    pieces = [value.astype(jp.float32) if element == mujoco.mjtState.mjSTATE_EQ_ACTIVE else value]\n"
+                "    state += [p.flatten() for p in pieces]\n")]},
+    {"id": "ctl-set-cursor-end", "expect": None,
+     "edits": [(IO, "      value = state[offset : offset + size]\n", "      end = offset + size\n      value = state[offset:end]\n"),
+               (IO, "      updates[name] = value\n      offset += size", "      updates.update({name: value})\n      offset = end")]},
+    {"id": "ctl-zeros-helper", "expect": None,
+     "edits": [(IO, "def _make_data_public_fields(m: types.Model) -> Dict[str, Any]:",
+                "def _alloc(specs):\n  return {k: np.zeros(v[:-1], dtype=v[-1]) for k, v in specs.items()}\n\n\n"
+                "def _make_data_public_fields(m: types.Model) -> Dict[str, Any]:"),
+               (IO, _ZEROS_PUBLIC, "  return _alloc(zero_fields)\n"),
+               (IO, _ZEROS_IMPL, ""),
+               (IO, "      efc_type=efc_type,\n      **zero_impl_fields,\n  )", "      efc_type=efc_type,\n      **_alloc(zero_impl_fields),\n  )")]},
+    {"id": "ctl-field-as-keyword", "expect": None,
+     "edits": [(IO, "      'ten_length': (m.ntendon, float_),\n  }\n  zero_fields = {", "  }\n  zero_fields = {"),
+               (IO, "      eq_active=m.eq_active0,\n      _impl=impl,", "      eq_active=m.eq_active0,\n      ten_length=np.zeros(m.ntendon, dtype=float_),\n      _impl=impl,")]},
+    {"id": "ctl-lookup-try-except", "expect": None,
+     "edits": [(IO, "      if element not in _STATE_MAP:\n        raise ValueError(f'Invalid state element {element}')\n"
+                    "      name = _STATE_MAP[element]\n      value = getattr(d, name)",
+                "      try:\n        name = _STATE_MAP[element]\n      except KeyError:\n"
+                "        raise ValueError(f'Invalid state element {element}') from None\n      value = getattr(d, name)")]},
+    {"id": "ctl-set-two-pass", "expect": None,
+     "edits": [(IO, "import copy\n", "import copy\nimport dataclasses\n"),
+               (IO, _SET_LOOP,
+                "  selected = [e for e in (mujoco.mjtState(1 << i) for i in range(mujoco.mjtState.mjNSTATE.value)) if e & spec_int]\n"
+                "  sizes = [_state_elem_size(m, e) for e in selected]\n"
+                "  ends = [sum(sizes[: k + 1]) for k in range(len(sizes))]\n"
+                "  def _piece(e, lo, hi):\n    name = _STATE_MAP[e]\n    v = state[lo:hi]\n"
+                "    v = v[0] if name == 'time' else v.reshape(getattr(d, name).shape)\n"
+                "    return name, (v.astype(bool) if e == mujoco.mjtState.mjSTATE_EQ_ACTIVE else v)\n"
+                "  updates = dict(_piece(e, hi - n, hi) for e, n, hi in zip(selected, sizes, ends))\n"
+                "  return dataclasses.replace(d, **updates)\n")]},
+    {"id": "ctl-zeros-built-in-loop", "expect": None,
+     "edits": [(IO, _ZEROS_PUBLIC, "  out = {}\n  for name, spec in zero_fields.items():\n    *shape, dtype = spec\n"
+                "    out[name] = np.zeros(tuple(shape), dtype=dtype)\n  return out\n")]},
+    {"id": "ctl-copy-into-named-dict", "expect": None,
+     "edits": [(IO, _COPY_IMPL, "  impl_copies = {k: copy.copy(v) for k, v in impl_fields.items()}\n  data_jax = types.DataJAX(**impl_copies)\n")]},
+]
+
+
+# the parts of the tree the check reads: MJX sources, engine sources + headers, the build flags (cmake) the C front end
+# is configured from, and the binding source that names the non-member attributes of the wrapper classes
+SELFTEST_PARTS = ("mjx/mujoco", "src", "include", "cmake", "CMakeLists.txt", "python/mujoco")
+
+
+def selftest(res):
+    from .. import r_misc
+    r_misc.run_mutants("C44", res, MUTANTS, parts=SELFTEST_PARTS)
+
+
 def run(res, tier):
     repo = os.path.abspath(REPO)
     H = cheaders.load(repo)
@@ -1065,15 +2721,25 @@ def run(res, tier):
     res.extra["copy_loops_over_foreign_classes_not_decided"] = foreign
     res.trusted = ["clang 14 parser/type checker/preprocessor", "CPython ast module (parsing only)"]
     res.explanation = (
-        "Structural agreement of MJX's state API and data transfer with C: the per-element field and size tables of "
-        "mj_stateElemPtr/mj_stateElemSize (clang IR, plus the special cases of mj_getState/mj_setState) are compared "
-        "with _STATE_MAP and with _state_elem_size partially evaluated for every element; the three MJX state "
-        "functions are checked to walk elements in ascending bit order under the signature mask like the C loops and to "
-        "convert the elements C stores with a non-mjtNum type; every Data/Model/Contact field that io.py copies by name "
-        "is a C struct member; make_data constructs exactly the field set of types.Data/DataJAX with C's array extents "
-        "for the public fields.")
+        "Structural agreement of MJX's state API and data transfer with C.  The Python side is run in a partial evaluator "
+        "(concrete signature, symbolic model/data/state vector; helpers, generators, tables, comprehensions and sum() are "
+        "executed, calls into other modules stay opaque terms): for every single-bit element the field get_state reads / "
+        "set_state replaces and the sizes state_size returns / set_state consumes are compared with the tables of "
+        "mj_stateElemPtr / mj_stateElemSize (clang IR, plus the special cases of mj_getState/mj_setState); for a family of "
+        "composite signatures the selection under `element & spec`, the concatenation order of get_state and the slice "
+        "offsets of set_state are compared with the ascending-bit layout of the C loops; elements C stores with a "
+        "non-mjtNum type must be converted both ways and out-of-range signatures rejected; every Data/Model/Contact field "
+        "that io.py copies by name is a C struct member; the JAX make_data path, run with a symbolic model, constructs "
+        "exactly the field set of types.Data/DataJAX with C's array extents for the zero-initialised public fields.")
     res.not_decided = ("jax.jit/jax.vmap transparency, numerical put/get round trips and dtype handling (need execution); "
                        "get_data_into's per-field conversions; Warp/C++ back ends; shapes of the JAX-private (DataJAX) "
-                       "fields, whose representation deliberately differs from C (dense matrices).")
+                       "fields, whose representation deliberately differs from C (dense matrices).  The evaluator covers a "
+                       "Python subset: a state API that builds its result other than by one call over the sequence of "
+                       "pieces (get_state) / one d.replace(**updates) with slices of the state vector (set_state), stores "
+                       "into symbolic arrays, or loops over symbolic iterables are reported as ANALYSIS-ERROR, not as a "
+                       "violation; validation branches (`if <undecidable>: raise`) are assumed not taken.")
     res.assumptions = ["dataclass semantics of PyTreeNode: fields() are the annotated class attributes incl. local bases",
-                       "the Python bindings expose C struct members under their C names"]
+                       "the Python bindings expose C struct members under their C names",
+                       "mujoco.mjt* enums behave like IntEnum; int() of a symbolic model size is that size",
+                       "helper generators are pure (evaluated eagerly); calls into other modules have no effect on "
+                       "Python-level containers of io.py"]
